@@ -15,6 +15,8 @@
 import VfsModel.Proofs.AltrootLemmas
 import VfsModel.Proofs.MemRun
 import VfsModel.Props.C05
+set_option linter.unusedSimpArgs false
+set_option linter.unusedVariables false
 namespace Vfs
 open Overlay
 
@@ -151,7 +153,7 @@ theorem first_slash_split (x y s t : Str) (hx : '/' ∉ x) (hy : '/' ∉ y)
       rw [ih ds hx.2 hy.2 he]
 
 /-- a canonical path and a marker coincide only inside the ".whiteout" namespace -/
-theorem renderC_eq_marker_head (cs : List Str) (q : Str) (hcs : ∀ c ∈ cs, GoodComp c)
+theorem renderC_eq_marker_head (cs : List Str) (q : Str) (hcs : ∀ c ∈ cs, '/' ∉ c)
     (h : renderC cs = marker q) (hq : q.head? = some '/') : cs.head? = some woDir := by
   cases cs with
   | nil => simp [marker] at h
@@ -162,9 +164,1781 @@ theorem renderC_eq_marker_head (cs : List Str) (q : Str) (hcs : ∀ c ∈ cs, Go
       simp at hq; subst hq
       simp only [renderC_cons, marker, List.cons_append, List.cons.injEq, true_and,
         List.append_assoc] at h
-      have hc : '/' ∉ c := (hcs c (by simp)).2.1
+      have hc : '/' ∉ c := hcs c (by simp)
       have hs : renderC cs = [] ∨ (renderC cs).head? = some '/' := by cases cs <;> simp
       have := first_slash_split c woDir _ _ hc (by decide) hs h
       simp [this]
+
+/-! ### the path computations of the overlay on canonical paths -/
+
+theorem tail1_renderC_cons (c : Str) (cs : List Str) : tail1 (renderC (c :: cs)) = c ++ renderC cs := by
+  simp [tail1]
+
+/-- `layer.join(&path[1..])` for a layer root -/
+theorem join_root_tail1 (l : VPath) (hl : l.path = []) (cs : List Str) (hne : cs ≠ [])
+    (hcs : ∀ c ∈ cs, GoodComp c) : l.join (tail1 (renderC cs)) = .ok (l.withStr (renderC cs)) := by
+  cases cs with
+  | nil => exact absurd rfl hne
+  | cons c cs =>
+    rw [tail1_renderC_cons]
+    unfold VPath.join
+    rw [hl]
+    have := joinInternal_good [] c cs (by simp) (hcs c (by simp)) (fun x hx => hcs x (by simp [hx]))
+    simp only [renderC_nil, List.nil_append] at this
+    rw [this]; rfl
+
+/-- `layer.join(actual_path)` of `read_dir` (the root included) -/
+theorem join_root_actual (l : VPath) (hl : l.path = []) (cs : List Str)
+    (hcs : ∀ c ∈ cs, GoodComp c) :
+    l.join (if renderC cs ≠ [] then tail1 (renderC cs) else renderC cs)
+      = .ok (l.withStr (renderC cs)) := by
+  cases cs with
+  | nil =>
+    simp only [renderC_nil, ne_eq, not_true_eq_false, if_false]
+    unfold VPath.join joinInternal
+    rw [hl]; rfl
+  | cons c cs =>
+    rw [if_pos (by simp)]
+    exact join_root_tail1 l hl _ (by simp) hcs
+
+theorem writePath_canon (layers : List VPath) (hw : (writeLayer layers).path = [])
+    (cs : List Str) (hne : cs ≠ []) (hcs : ∀ c ∈ cs, GoodComp c) :
+    writePath layers (renderC cs) = .ok ((writeLayer layers).withStr (renderC cs)) := by
+  unfold writePath
+  rw [if_neg (by cases cs with | nil => exact absurd rfl hne | cons c cs => simp)]
+  exact join_root_tail1 _ hw cs hne hcs
+
+theorem writePath_root (layers : List VPath) : writePath layers [] = .ok (writeLayer layers) := rfl
+
+theorem whiteoutPath_canon (layers : List VPath) (hw : (writeLayer layers).path = [])
+    (ds : List Str) (n : Str) (hds : ∀ c ∈ ds, GoodComp c) (hn : GoodComp n) :
+    whiteoutPath layers (renderC (ds ++ [n]))
+      = .ok ((writeLayer layers).withStr (marker (renderC (ds ++ [n])))) := by
+  unfold whiteoutPath
+  rw [if_neg (by cases ds <;> simp)]
+  have harg : woDir ++ '/' :: (tail1 (renderC (ds ++ [n])) ++ woSuffix)
+      = woDir ++ renderC (ds ++ [n ++ woSuffix]) := by
+    cases ds with
+    | nil => simp [tail1]
+    | cons d ds => simp [tail1, List.append_assoc]
+  rw [harg]
+  unfold VPath.join
+  rw [hw]
+  have := joinInternal_good [] woDir (ds ++ [n ++ woSuffix]) (by simp) goodComp_woDir
+    (good_snoc hds (goodComp_wo hn))
+  simp only [renderC_nil, List.nil_append] at this
+  rw [this, marker_renderC]; rfl
+
+theorem whiteoutPath_root (layers : List VPath) (hw : (writeLayer layers).path = []) :
+    whiteoutPath layers [] = .ok ((writeLayer layers).withStr rootMarker) := by
+  unfold whiteoutPath
+  rw [if_pos rfl]
+  unfold VPath.join
+  rw [hw]
+  have : joinInternal [] (woDir ++ '/' :: woSuffix) = .ok rootMarker := by decide
+  rw [this]; rfl
+
+/-- the directory of markers consulted by `read_dir(p)`: ".whiteout" ++ p -/
+theorem woDir_join_canon (layers : List VPath) (hw : (writeLayer layers).path = [])
+    (cs : List Str) (hcs : ∀ c ∈ cs, GoodComp c) :
+    (writeLayer layers).join (woDir ++ renderC cs)
+      = .ok ((writeLayer layers).withStr (woDirOf (renderC cs))) := by
+  unfold VPath.join
+  rw [hw]
+  have := joinInternal_good [] woDir cs (by simp) goodComp_woDir hcs
+  simp only [renderC_nil, List.nil_append] at this
+  rw [this, woDirOf_renderC]; rfl
+
+/-! ### `dirPrefixes` of a canonical path: the chain of its ancestors and itself -/
+
+/-- all prefixes ending at the end of the string or just before a '/' (the empty one included) -/
+def cuts : Str → List Str
+  | [] => [[]]
+  | y :: s => (if y = '/' then [[]] else []) ++ (cuts s).map (y :: ·)
+
+theorem range_filter_map_succ {β} (n : Nat) (P : Nat → Bool) (f : Nat → β) :
+    ((List.range (n + 1)).filter P).map f
+      = (if P 0 then [f 0] else []) ++
+        ((List.range n).filter (fun e => P (e + 1))).map (fun e => f (e + 1)) := by
+  rw [List.range_succ_eq_map]
+  simp only [List.filter_cons, List.filter_map]
+  split <;> simp [Function.comp_def]
+
+/-- `cuts` as positions -/
+def cutsR (s : Str) : List Str :=
+  ((List.range (s.length + 1)).filter
+      (fun e => decide (e = s.length ∨ s[e]? = some '/'))).map (fun e => s.take e)
+
+theorem cutsR_cons (y : Char) (s : Str) :
+    cutsR (y :: s) = (if y = '/' then [[]] else []) ++ (cutsR s).map (y :: ·) := by
+  unfold cutsR
+  rw [List.length_cons, range_filter_map_succ]
+  congr 1
+  · by_cases hy : y = '/' <;> simp [hy]
+  · rw [List.map_map]
+    have hf : (List.range (s.length + 1)).filter
+          (fun e => decide (e + 1 = s.length + 1 ∨ (y :: s)[e + 1]? = some '/'))
+        = (List.range (s.length + 1)).filter
+          (fun e => decide (e = s.length ∨ s[e]? = some '/')) := by
+      apply List.filter_congr
+      intro e _
+      simp
+    rw [hf]
+    apply List.map_congr_left
+    intro e _
+    simp
+
+theorem cuts_eq_cutsR (s : Str) : cuts s = cutsR s := by
+  induction s with
+  | nil => decide
+  | cons y s ih => rw [cuts, cutsR_cons, ih]
+
+theorem dirPrefixes_cons (x : Char) (s : Str) :
+    VPath.dirPrefixes (x :: s) = (cuts s).map (x :: ·) := by
+  rw [cuts_eq_cutsR]
+  unfold VPath.dirPrefixes cutsR
+  rw [List.length_cons, range_filter_map_succ, List.map_map]
+  have h0 : decide (1 ≤ 0 ∧ (0 = s.length + 1 ∨ (x :: s)[0]? = some '/')) = false := by simp
+  rw [h0]
+  simp only [Bool.false_eq_true, if_false, List.nil_append]
+  have hf : (List.range (s.length + 1)).filter
+        (fun e => decide (1 ≤ e + 1 ∧ (e + 1 = s.length + 1 ∨ (x :: s)[e + 1]? = some '/')))
+      = (List.range (s.length + 1)).filter
+        (fun e => decide (e = s.length ∨ s[e]? = some '/')) := by
+    apply List.filter_congr
+    intro e _
+    simp
+  rw [hf]
+  apply List.map_congr_left
+  intro e _
+  simp
+
+theorem cuts_append_noSlash (c s : Str) (hc : '/' ∉ c) : cuts (c ++ s) = (cuts s).map (c ++ ·) := by
+  induction c with
+  | nil => simp
+  | cons y c ih =>
+    simp at hc
+    rw [List.cons_append, cuts, if_neg (fun h => hc.1 h.symm), ih hc.2]
+    simp [Function.comp_def]
+
+/-- the ancestors chain: `pre/c1`, `pre/c1/c2`, … -/
+def chain (pre : List Str) : List Str → List Str
+  | [] => []
+  | c :: cs => renderC (pre ++ [c]) :: chain (pre ++ [c]) cs
+
+theorem cuts_renderC (pre cs : List Str) (hcs : ∀ c ∈ cs, '/' ∉ c) :
+    (cuts (renderC cs)).map (renderC pre ++ ·) = renderC pre :: chain pre cs := by
+  induction cs generalizing pre with
+  | nil => simp [cuts, chain]
+  | cons c cs ih =>
+    have hc := hcs c (by simp)
+    rw [renderC_cons, List.cons_append, cuts, if_pos rfl,
+      cuts_append_noSlash c _ hc]
+    simp only [List.map_cons, List.append_nil, List.map_map,
+      List.singleton_append, chain]
+    congr 1
+    have := ih (pre ++ [c]) (fun x hx => hcs x (by simp [hx]))
+    rw [← this]
+    apply List.map_congr_left
+    intro a _
+    simp
+
+theorem dirPrefixes_renderC (cs : List Str) (hcs : ∀ c ∈ cs, '/' ∉ c) :
+    VPath.dirPrefixes (renderC cs) = chain [] cs := by
+  cases cs with
+  | nil => decide
+  | cons c cs =>
+    rw [renderC_cons, List.cons_append, dirPrefixes_cons, cuts_append_noSlash c _ (hcs c (by simp))]
+    have := cuts_renderC [c] cs (fun x hx => hcs x (by simp [hx]))
+    simp only [List.map_map, chain, List.nil_append]
+    have h2 : (fun x => '/' :: x) ∘ (fun x => c ++ x) = (renderC [c] ++ ·) := by
+      funext x; simp
+    rw [h2, this]
+
+theorem mem_chain (pre cs : List Str) (k : Str) :
+    k ∈ chain pre cs ↔ ∃ j, 1 ≤ j ∧ j ≤ cs.length ∧ k = renderC (pre ++ cs.take j) := by
+  induction cs generalizing pre with
+  | nil => simp [chain]; intro j h1 h2; omega
+  | cons c cs ih =>
+    simp only [chain, List.mem_cons, ih, List.length_cons]
+    constructor
+    · rintro (rfl | ⟨j, h1, h2, rfl⟩)
+      · exact ⟨1, by omega, by omega, by simp⟩
+      · exact ⟨j + 1, by omega, by omega, by simp [List.append_assoc]⟩
+    · rintro ⟨j, h1, h2, rfl⟩
+      by_cases hj : j = 1
+      · subst hj; left; simp
+      · right
+        refine ⟨j - 1, by omega, by omega, ?_⟩
+        obtain ⟨i, rfl⟩ : ∃ i, j = i + 1 := ⟨j - 1, by omega⟩
+        simp [List.append_assoc]
+
+/-! ### `create_dir_all` on a memory map -/
+
+namespace Mem
+
+/-- the loop of `create_dir_all` over a list of prefixes, on a memory map -/
+def mkdirs (m : FMap) : List Str → Res Unit × FMap
+  | [] => (.ok (), m)
+  | d :: rest =>
+    match Mem.createDir m d with
+    | (.ok _, m') => mkdirs m' rest
+    | (.err .dirExists _, m') => mkdirs m' rest
+    | (.err k _, m') => (.err k (some d), m')
+    | (.panic, m') => (.panic, m')
+
+end Mem
+
+theorem run_createDirAllLoop {w : World} {i : Nat} {m : FMap} (h : MemLeafAt w i m) (id : Nat)
+    (q : Str) (ds : List Str) :
+    VPath.createDirAllLoop { fs := leafFS i, fsId := id, path := q } ds w =
+      ((Mem.mkdirs m ds).1, w.setLeafFiles i (Mem.mkdirs m ds).2) := by
+  induction ds generalizing w m with
+  | nil => simp [VPath.createDirAllLoop, Mem.mkdirs, h.same, Pure.pure, M.pure]
+  | cons d rest ih =>
+    unfold VPath.createDirAllLoop Mem.mkdirs
+    simp only [run_createDir h]
+    cases hc : Mem.createDir m d with
+    | mk r m' =>
+      have h' := h.set m'
+      cases r with
+      | ok a => simp only [ih h', World.setLeafFiles_twice]
+      | err k pth =>
+        cases k <;> simp only [ih h', World.setLeafFiles_twice]
+      | panic => rfl
+
+/-- add a fresh directory entry at every listed key that is absent -/
+def fillDirs (m : FMap) : List Str → FMap
+  | [] => m
+  | k :: ks => fillDirs (if m.contains k then m else m.insert k dirEntryNow) ks
+
+theorem find?_fillDirs (m : FMap) (ks : List Str) (q : Str) :
+    (fillDirs m ks).find? q = (m.find? q).or (if q ∈ ks then some dirEntryNow else none) := by
+  induction ks generalizing m with
+  | nil => simp [fillDirs]
+  | cons k ks ih =>
+    rw [fillDirs, ih]
+    by_cases hk : m.contains k = true
+    · rw [if_pos hk]
+      by_cases hq : q = k
+      · subst hq
+        obtain ⟨e, he⟩ := (FMap.contains_iff m q).1 hk
+        simp [he]
+      · simp [hq]
+    · rw [if_neg hk, FMap.find?_insert]
+      by_cases hq : q = k
+      · subst hq
+        have : m.find? q = none := by
+          unfold FMap.contains at hk
+          cases hf : m.find? q <;> simp_all
+        simp [this]
+      · simp [hq]
+
+theorem contains_fillDirs_of_contains (m : FMap) (ks : List Str) (q : Str)
+    (h : m.contains q = true) : (fillDirs m ks).contains q = true := by
+  obtain ⟨e, he⟩ := (FMap.contains_iff m q).1 h
+  rw [FMap.contains_iff]
+  exact ⟨e, by rw [find?_fillDirs, he]; rfl⟩
+
+theorem find?_fillDirs_not_mem (m : FMap) (ks : List Str) (q : Str) (h : q ∉ ks) :
+    (fillDirs m ks).find? q = m.find? q := by
+  rw [find?_fillDirs, if_neg h]; simp
+
+theorem mkdirs_chain (m : FMap) (pre cs : List Str) (hpre : ∀ c ∈ pre, '/' ∉ c)
+    (hcs : ∀ c ∈ cs, '/' ∉ c) (hroot : m.contains (renderC pre) = true)
+    (hdirs : ∀ k ∈ chain pre cs, ∀ e, m.find? k = some e → e.ftype = .dir) :
+    Mem.mkdirs m (chain pre cs) = (.ok (), fillDirs m (chain pre cs)) := by
+  induction cs generalizing pre m with
+  | nil => rfl
+  | cons c cs ih =>
+    have hc := hcs c (by simp)
+    have hpre' : ∀ x ∈ pre ++ [c], '/' ∉ x := by
+      intro x hx; simp at hx; rcases hx with hx | rfl
+      · exact hpre x hx
+      · exact hc
+    have hpar : parentInternal (renderC (pre ++ [c])) = renderC pre := by
+      rw [parentInternal_renderC _ hpre', List.dropLast_concat]
+    have hsl : '/' ∈ renderC (pre ++ [c]) := slash_mem_renderC (by simp)
+    have hen : Mem.ensureHasParent m (renderC (pre ++ [c])) = .ok () := by
+      unfold Mem.ensureHasParent
+      rw [if_pos hsl, hpar, if_pos hroot]
+    simp only [chain, Mem.mkdirs, fillDirs]
+    unfold Mem.createDir
+    rw [hen]
+    rcases Option.eq_none_or_eq_some (m.find? (renderC (pre ++ [c]))) with hf | ⟨e, hf⟩
+    · have hnc : ¬ m.contains (renderC (pre ++ [c])) = true := by
+        unfold FMap.contains; rw [hf]; simp
+      simp only [hf, if_neg hnc]
+      apply ih _ (pre ++ [c]) hpre' (fun x hx => hcs x (by simp [hx]))
+      · unfold FMap.contains; rw [FMap.find?_insert_self]; rfl
+      · intro k hk e he
+        rw [FMap.find?_insert] at he
+        split at he
+        · injection he with he; subst he; rfl
+        · exact hdirs k (by simp [chain, hk]) e he
+    · have hd : e.ftype = .dir := hdirs _ (by simp [chain]) e hf
+      have hcn : m.contains (renderC (pre ++ [c])) = true := by
+        unfold FMap.contains; rw [hf]; rfl
+      simp only [hf, hd, if_pos hcn, fail]
+      simp only [show (FType.dir = FType.file) = False from by simp, if_false]
+      apply ih _ (pre ++ [c]) hpre' (fun x hx => hcs x (by simp [hx])) hcn
+      intro k hk e' he'
+      exact hdirs k (by simp [chain, hk]) e' he'
+
+/-! ### the setting: two memory leaves, the two layer roots -/
+
+/-- leaves `u ≠ l` of the world are memory leaves holding `mu` (upper) and `ml` (lower) -/
+structure OW (w : World) (u l : Nat) (mu ml : FMap) : Prop where
+  hu : MemLeafAt w u mu
+  hl : MemLeafAt w l ml
+  ne : u ≠ l
+
+theorem OW.setU {w : World} {u l : Nat} {mu ml : FMap} (h : OW w u l mu ml) (m' : FMap) :
+    OW (w.setLeafFiles u m') u l m' ml :=
+  ⟨h.hu.set m', by
+    unfold MemLeafAt; rw [World.leaf?_setLeafFiles_ne w u l m' h.ne]; exact h.hl, h.ne⟩
+
+theorem OW.setL {w : World} {u l : Nat} {mu ml : FMap} (h : OW w u l mu ml) (m' : FMap) :
+    OW (w.setLeafFiles l m') u l mu m' :=
+  ⟨by unfold MemLeafAt; rw [World.leaf?_setLeafFiles_ne w l u m' (fun e => h.ne e.symm)]; exact h.hu,
+    h.hl.set m', h.ne⟩
+
+/-- the two layers of the overlay: the roots of the leaf filesystems `u` (upper) and `l` -/
+def layers2 (u l idu idl : Nat) : List VPath :=
+  [{ fs := leafFS u, fsId := idu, path := [] }, { fs := leafFS l, fsId := idl, path := [] }]
+
+/-- the union view: nothing where a marker sits, otherwise the first layer that has the path -/
+def view (mu ml : FMap) (p : Str) : Option Entry :=
+  if mu.contains (marker p) then none else (mu.find? p).or (ml.find? p)
+
+/-! ### how the path-layer observers run on a memory leaf -/
+
+section runv
+variable {w : World} {i : Nat} {m : FMap} (h : MemLeafAt w i m)
+include h
+
+theorem run_vexists (id : Nat) (p : Str) :
+    VPath.exists_ { fs := leafFS i, fsId := id, path := p } w = (.ok (m.contains p), w) :=
+  run_exists h p
+
+theorem run_vmetadata (id : Nat) (p : Str) :
+    VPath.metadata { fs := leafFS i, fsId := id, path := p } w
+      = ((Mem.metadata m p).withPath p, w) := by
+  unfold VPath.metadata M.withPath
+  simp only [run_metadata h]
+
+theorem run_visDir (id : Nat) (p : Str) :
+    VPath.isDir { fs := leafFS i, fsId := id, path := p } w =
+      (.ok (match m.find? p with
+            | some e => decide (e.ftype = .dir)
+            | none => false), w) := by
+  unfold VPath.isDir
+  rcases Option.eq_none_or_eq_some (m.find? p) with hf | ⟨e, hf⟩
+  · simp [hf, bind, M.bind, run_vexists h, FMap.contains, Pure.pure, M.pure]
+  · simp [hf, bind, M.bind, run_vexists h, run_vmetadata h, FMap.contains, Mem.metadata,
+      Pure.pure, M.pure, Res.withPath, Entry.meta]
+
+theorem run_visFile (id : Nat) (p : Str) :
+    VPath.isFile { fs := leafFS i, fsId := id, path := p } w =
+      (.ok (match m.find? p with
+            | some e => decide (e.ftype = .file)
+            | none => false), w) := by
+  unfold VPath.isFile
+  rcases Option.eq_none_or_eq_some (m.find? p) with hf | ⟨e, hf⟩
+  · simp [hf, bind, M.bind, run_vexists h, FMap.contains, Pure.pure, M.pure]
+  · simp [hf, bind, M.bind, run_vexists h, run_vmetadata h, FMap.contains, Mem.metadata,
+      Pure.pure, M.pure, Res.withPath, Entry.meta]
+
+end runv
+
+/-- sequencing of pure state functions on a map (mirrors `M.bind`) -/
+def andThen {α β} (x : Res α × FMap) (f : α → FMap → Res β × FMap) : Res β × FMap :=
+  match x with
+  | (.ok a, m) => f a m
+  | (.err k p, m) => (.err k p, m)
+  | (.panic, m) => (.panic, m)
+
+/-- `create_file()?` immediately dropped: an empty file is published -/
+def Mem.pTouch (m : FMap) (k : Str) : Res Unit × FMap :=
+  if Mem.parentOk m k then
+    match Mem.createFile m k with
+    | (.ok _, m') => (.ok (), memPublish m' k [])
+    | (.err e pth, m') => ((Res.err e pth : Res Unit).withPath k, m')
+    | (.panic, m') => (.panic, m')
+  else (.err .other (some k), m)
+
+section run1
+variable {w : World} {i : Nat} {m : FMap} (h : MemLeafAt w i m)
+include h
+
+theorem run_createDirAll (id : Nat) (ds : List Str) (hds : ∀ c ∈ ds, GoodComp c) :
+    VPath.createDirAll { fs := leafFS i, fsId := id, path := renderC ds } w =
+      ((Mem.mkdirs m (chain [] ds)).1, w.setLeafFiles i (Mem.mkdirs m (chain [] ds)).2) := by
+  unfold VPath.createDirAll
+  cases ds with
+  | nil => simp [chain, Mem.mkdirs, Pure.pure, M.pure, h.same]
+  | cons d ds =>
+    rw [if_neg (by simp)]
+    show VPath.createDirAllLoop _ (VPath.dirPrefixes (renderC (d :: ds))) w = _
+    rw [dirPrefixes_renderC _ (good_noSlash hds), run_createDirAllLoop h]
+
+theorem run_pTouch (id : Nat) (k : Str) :
+    (do let hd ← VPath.createFile { fs := leafFS i, fsId := id, path := k }
+        hd.drop : M Unit) w =
+      ((Mem.pTouch m k).1, w.setLeafFiles i (Mem.pTouch m k).2) := by
+  unfold VPath.createFile Mem.pTouch
+  simp only [bind, M.bind, run_getParent h]
+  by_cases hp : Mem.parentOk m k = true
+  · simp only [hp, ↓reduceIte, M.withPath, run_createFile h]
+    cases hc : Mem.createFile m k with
+    | mk r m' =>
+      cases r with
+      | ok u =>
+        have h' : MemLeafAt (w.setLeafFiles i m') i m' := h.set m'
+        simp only [Res.map, Res.withPath, WHandle.drop, WHandle.flush]
+        unfold MemLeafAt at h'
+        simp only [h', World.setLeafFiles_twice]
+      | err k pth => simp [Res.map, Res.withPath]
+      | panic => simp [Res.map, Res.withPath]
+  · simp only [hp, Bool.false_eq_true, ↓reduceIte, h.same]
+
+end run1
+
+/-! ### listings -/
+
+/-- the prefix scan lists exactly the bare names `n` such that `p/n` is a key -/
+theorem mem_children (m : FMap) (p n : Str) :
+    n ∈ m.keys.filterMap (childName p) ↔ ('/' ∉ n ∧ m.contains (p ++ '/' :: n) = true) := by
+  rw [mem_filterMap_childName, FMap.contains_iff]
+  constructor
+  · rintro ⟨k, e, hk, hs, hp, ha⟩
+    have := (split_last '/' k hs)
+    unfold parentInternal at hp
+    rw [hp, ha] at this
+    exact ⟨this.2, e, by rw [← this.1]; exact hk⟩
+  · rintro ⟨hn, e, he⟩
+    exact ⟨p ++ '/' :: n, e, he, by simp, parent_of_child p n hn,
+      afterLast_append_delim '/' p n hn⟩
+
+/-- the names a layer contributes to the merged listing of `p`: its children if `p` is a
+directory there, nothing otherwise -/
+def layerNames (m : FMap) (p : Str) : List Str :=
+  match m.find? p with
+  | some e => if e.ftype = .dir then m.keys.filterMap (childName p) else []
+  | none => []
+
+/-- the `HashSet` insertions of `read_dir` -/
+def mergeStep (acc names : List Str) : List Str :=
+  names.foldl (fun a n => if n ∈ a then a else a ++ [n]) acc
+
+theorem mergeStep_nil (acc : List Str) : mergeStep acc [] = acc := rfl
+
+/-- the names of the children paths handed back by `VfsPath::read_dir` -/
+theorem filenames_of_children (fs : FS) (id : Nat) (p : Str) (names : List Str)
+    (hn : ∀ n ∈ names, '/' ∉ n) :
+    (names.map (fun n => (VPath.withStr { fs := fs, fsId := id, path := p } (p ++ '/' :: n)))).map
+      (fun c => filenameInternal c.path) = names := by
+  rw [List.map_map]
+  conv => rhs; rw [← List.map_id names]
+  apply List.map_congr_left
+  intro n hm
+  simp only [Function.comp, VPath.withStr, _root_.id]
+  exact afterLast_append_delim '/' p n (hn n hm)
+
+theorem children_noSlash (m : FMap) (p : Str) : ∀ n ∈ m.keys.filterMap (childName p), '/' ∉ n :=
+  fun n hn => ((mem_children m p n).1 hn).1
+
+theorem run_vreadDir {w : World} {i : Nat} {m : FMap} (h : MemLeafAt w i m) (id : Nat) (p : Str)
+    (e : Entry) (hf : m.find? p = some e) (hd : e.ftype = .dir) :
+    VPath.readDir { fs := leafFS i, fsId := id, path := p } w =
+      (.ok ((m.keys.filterMap (childName p)).map
+        (fun n => VPath.withStr { fs := leafFS i, fsId := id, path := p } (p ++ '/' :: n))), w) := by
+  unfold VPath.readDir
+  simp [bind, M.bind, M.withPath, run_readDir h, Mem.readDir, hf, hd, Res.withPath, Pure.pure,
+    M.pure]
+
+theorem run_vreadDir_file {w : World} {i : Nat} {m : FMap} (h : MemLeafAt w i m) (id : Nat)
+    (p : Str) (e : Entry) (hf : m.find? p = some e) (hd : e.ftype = .file) :
+    VPath.readDir { fs := leafFS i, fsId := id, path := p } w = (.err .other (some p), w) := by
+  unfold VPath.readDir
+  simp [bind, M.bind, M.withPath, run_readDir h, Mem.readDir, hf, hd, Res.withPath, fail]
+
+theorem contains_of_find {m : FMap} {k : Str} {e : Entry} (h : m.find? k = some e) :
+    m.contains k = true := by unfold FMap.contains; rw [h]; rfl
+
+theorem contains_of_none {m : FMap} {k : Str} (h : m.find? k = none) :
+    m.contains k = false := by unfold FMap.contains; rw [h]; rfl
+
+/-- one layer's contribution to `mergeListings` -/
+theorem run_mergeLayer {w : World} {i : Nat} {m : FMap} (h : MemLeafAt w i m) (id : Nat) (p : Str)
+    (acc : List Str) {β} (k : List Str → M β) :
+    (do let isd ← VPath.isDir { fs := leafFS i, fsId := id, path := p }
+        if isd then do
+          let cs ← VPath.readDir { fs := leafFS i, fsId := id, path := p }
+          k ((cs.map fun c => filenameInternal c.path).foldl
+              (fun a n => if n ∈ a then a else a ++ [n]) acc)
+        else k acc : M β) w = k (mergeStep acc (layerNames m p)) w := by
+  simp only [bind, M.bind, run_visDir h]
+  unfold layerNames
+  rcases Option.eq_none_or_eq_some (m.find? p) with hf | ⟨e, hf⟩
+  · simp [hf, mergeStep]
+  · by_cases hd : e.ftype = .dir
+    · simp only [hf, hd, decide_true, if_true, M.bind, run_vreadDir h id p e hf hd,
+        filenames_of_children _ _ _ _ (children_noSlash m p)]
+      rfl
+    · simp [hf, hd, mergeStep]
+
+/-! ### handles and transfers on a memory leaf -/
+
+theorem cursorWrite_nil (bs : Bytes) : cursorWrite [] 0 bs = bs := by
+  simp [cursorWrite, padTo]
+
+theorem cursorWrite_end (b bs : Bytes) : cursorWrite b b.length bs = b ++ bs := by
+  simp [cursorWrite, padTo]
+
+theorem Mem.openFile_some (m : FMap) (p : Str) (e : Entry) (hf : m.find? p = some e) :
+    Mem.openFile m p =
+      (if e.ftype ≠ .file then fail .other else .ok { content := e.content, pos := 0 },
+        m.insert p { e with accessed := .now }) := by
+  unfold Mem.openFile Mem.setAccessed
+  simp only [hf, FMap.find?_insert_self]
+  split <;> rfl
+
+theorem Mem.openFile_none (m : FMap) (p : Str) (hf : m.find? p = none) :
+    Mem.openFile m p = (fail .fileNotFound, m) := by
+  unfold Mem.openFile Mem.setAccessed
+  simp only [hf, fail]
+
+theorem run_vopenFile {w : World} {i : Nat} {m : FMap} (h : MemLeafAt w i m) (id : Nat) (p : Str) :
+    VPath.openFile { fs := leafFS i, fsId := id, path := p } w =
+      ((Mem.openFile m p).1.withPath p, w.setLeafFiles i (Mem.openFile m p).2) := by
+  unfold VPath.openFile M.withPath
+  simp only [run_openFile h]
+
+theorem run_writeAllAndDrop {w : World} {i : Nat} {m : FMap} (h : MemLeafAt w i m) (key : Str)
+    (buf : Bytes) (pos : Nat) (bs : Bytes) :
+    WHandle.writeAllAndDrop { leaf := i, key := key, kind := .memFile, buf := buf, pos := pos } bs w
+      = (.ok (), w.setLeafFiles i (memPublish m key (cursorWrite buf pos bs))) := by
+  unfold MemLeafAt at h
+  simp only [WHandle.writeAllAndDrop, bind, M.bind, WHandle.write, WHandle.drop, WHandle.flush, h]
+
+theorem run_copyFile_mem {w : World} {i : Nat} {m : FMap} (h : MemLeafAt w i m) (s d : Str) :
+    (leafFS i).copyFile s d w = (fail .notSupported, w) := by
+  show onLeaf i _ w = _
+  rw [run_onLeaf h]; simp [h.same]
+
+theorem parentOk_contains {m : FMap} {p : Str} (h : Mem.parentOk m p = true) :
+    m.contains (parentInternal p) = true := by
+  obtain ⟨pe, hpe, _⟩ := Mem.parentOk_spec m p h
+  exact contains_of_find hpe
+
+theorem Mem.createFile_fresh (m : FMap) (p : Str) (hs : '/' ∈ p)
+    (hpar : m.contains (parentInternal p) = true) (hf : m.find? p = none) :
+    Mem.createFile m p = (.ok (), m.insert p fileEntryNow) := by
+  unfold Mem.createFile Mem.ensureHasParent
+  simp only [hs, hpar, if_true, hf]
+
+theorem run_ioCopyAndDrop {w : World} {i : Nat} {m : FMap} (h : MemLeafAt w i m) (content : Bytes)
+    (key sp : Str) :
+    VPath.ioCopyAndDrop { content := content, pos := 0 }
+        { leaf := i, key := key, kind := .memFile, buf := [], pos := 0 } sp w
+      = (.ok (), w.setLeafFiles i (memPublish m key content)) := by
+  unfold MemLeafAt at h
+  simp [VPath.ioCopyAndDrop, bind, M.bind, M.withPath, M.ret, RHandle.readToEnd, Res.withPath,
+    WHandle.write, WHandle.drop, WHandle.flush, h, cursorWrite_nil]
+
+/-! ### the overlay's building blocks on the two-leaf world -/
+
+section run2
+variable {w : World} {u l idu idl : Nat} {mu ml : FMap} (h : OW w u l mu ml)
+
+theorem writeLayer_layers2 (u l idu idl : Nat) :
+    writeLayer (layers2 u l idu idl) = { fs := leafFS u, fsId := idu, path := [] } := rfl
+
+theorem writeLayer_layers2_path (u l idu idl : Nat) :
+    (writeLayer (layers2 u l idu idl)).path = [] := rfl
+
+include h
+
+omit h in
+theorem join_leafRoot (i id : Nat) (cs : List Str) (hne : cs ≠ []) (hcs : ∀ c ∈ cs, GoodComp c) :
+    ({ fs := leafFS i, fsId := id, path := [] } : VPath).join (tail1 (renderC cs))
+      = .ok { fs := leafFS i, fsId := id, path := renderC cs } :=
+  join_root_tail1 _ rfl cs hne hcs
+
+theorem run_firstExisting (cs : List Str) (hne : cs ≠ []) (hcs : ∀ c ∈ cs, GoodComp c) :
+    firstExisting (renderC cs) (layers2 u l idu idl) w =
+      (.ok (if mu.contains (renderC cs) then
+              some { fs := leafFS u, fsId := idu, path := renderC cs }
+            else if ml.contains (renderC cs) then
+              some { fs := leafFS l, fsId := idl, path := renderC cs }
+            else none), w) := by
+  unfold layers2 firstExisting firstExisting firstExisting
+  rw [join_leafRoot u idu cs hne hcs, join_leafRoot l idl cs hne hcs]
+  by_cases h1 : mu.contains (renderC cs) = true
+  · simp [h1, bind, M.bind, M.ret, run_vexists h.hu, Pure.pure, M.pure]
+  · by_cases h2 : ml.contains (renderC cs) = true
+    · simp [h1, h2, bind, M.bind, M.ret, run_vexists h.hu, run_vexists h.hl, Pure.pure, M.pure]
+    · simp [h1, h2, bind, M.bind, M.ret, run_vexists h.hu, run_vexists h.hl, Pure.pure, M.pure]
+
+omit h in
+theorem renderC_ne_nil {cs : List Str} (hne : cs ≠ []) : renderC cs ≠ [] := by
+  cases cs with
+  | nil => exact absurd rfl hne
+  | cons c cs => simp
+
+omit h in
+theorem whiteoutPath_layers2 (cs : List Str) (hne : cs ≠ []) (hcs : ∀ c ∈ cs, GoodComp c) :
+    whiteoutPath (layers2 u l idu idl) (renderC cs)
+      = .ok { fs := leafFS u, fsId := idu, path := marker (renderC cs) } := by
+  rcases List.eq_nil_or_concat cs with rfl | ⟨ds, n, rfl⟩
+  · exact absurd rfl hne
+  · rw [List.concat_eq_append] at hcs ⊢
+    obtain ⟨hds, hn⟩ := good_of_snoc hcs
+    exact whiteoutPath_canon _ rfl ds n hds hn
+
+omit h in
+theorem writePath_layers2 (cs : List Str) (hne : cs ≠ []) (hcs : ∀ c ∈ cs, GoodComp c) :
+    writePath (layers2 u l idu idl) (renderC cs)
+      = .ok { fs := leafFS u, fsId := idu, path := renderC cs } :=
+  writePath_canon _ rfl cs hne hcs
+
+/-- `read_path` on a canonical non-root path -/
+theorem run_readPath (cs : List Str) (hne : cs ≠ []) (hcs : ∀ c ∈ cs, GoodComp c) :
+    readPath (layers2 u l idu idl) (renderC cs) w =
+      (if mu.contains (marker (renderC cs)) then .err .fileNotFound none
+       else if mu.contains (renderC cs) then
+         .ok { fs := leafFS u, fsId := idu, path := renderC cs }
+       else if ml.contains (renderC cs) then
+         .ok { fs := leafFS l, fsId := idl, path := renderC cs }
+       else .err .fileNotFound none, w) := by
+  unfold readPath
+  rw [if_neg (renderC_ne_nil hne), whiteoutPath_layers2 cs hne hcs, writeLayer_layers2,
+    join_leafRoot u idu cs hne hcs]
+  by_cases hm : mu.contains (marker (renderC cs)) = true
+  · simp [hm, bind, M.bind, M.ret, run_vexists h.hu, M.failK, fail]
+  · by_cases h1 : mu.contains (renderC cs) = true
+    · simp [hm, h1, bind, M.bind, M.ret, run_vexists h.hu, run_firstExisting h cs hne hcs,
+        Pure.pure, M.pure]
+    · by_cases h2 : ml.contains (renderC cs) = true
+      · simp [hm, h1, h2, bind, M.bind, M.ret, run_vexists h.hu, run_firstExisting h cs hne hcs,
+          Pure.pure, M.pure]
+      · simp [hm, h1, h2, bind, M.bind, M.ret, run_vexists h.hu, run_firstExisting h cs hne hcs,
+          Pure.pure, M.pure, M.failK, fail]
+
+omit h in
+theorem view_isSome (mu ml : FMap) (p : Str) :
+    (view mu ml p).isSome = (!mu.contains (marker p) && (mu.contains p || ml.contains p)) := by
+  unfold view FMap.contains
+  cases (mu.find? (marker p)).isSome <;> cases mu.find? p <;> cases ml.find? p <;> simp
+
+/-- `exists` on a canonical non-root path is "the union view has an entry" -/
+theorem run_oexists (cs : List Str) (hne : cs ≠ []) (hcs : ∀ c ∈ cs, GoodComp c) :
+    Overlay.exists_ (layers2 u l idu idl) (renderC cs) w
+      = (.ok (view mu ml (renderC cs)).isSome, w) := by
+  unfold Overlay.exists_
+  rw [whiteoutPath_layers2 cs hne hcs, view_isSome]
+  by_cases hm : mu.contains (marker (renderC cs)) = true
+  · simp [hm, bind, M.bind, M.ret, run_vexists h.hu, Pure.pure, M.pure]
+  · by_cases h1 : mu.contains (renderC cs) = true
+    · simp [hm, h1, bind, M.bind, M.ret, run_vexists h.hu, run_readPath h cs hne hcs]
+    · by_cases h2 : ml.contains (renderC cs) = true
+      · simp [hm, h1, h2, bind, M.bind, M.ret, run_vexists h.hu, run_vexists h.hl,
+          run_readPath h cs hne hcs]
+      · simp [hm, h1, h2, bind, M.bind, M.ret, run_vexists h.hu, run_readPath h cs hne hcs]
+
+/-- `exists("")`: the root of the upper layer, unless "/.whiteout/_wo" exists -/
+theorem run_oexists_root :
+    Overlay.exists_ (layers2 u l idu idl) [] w
+      = (.ok (!mu.contains rootMarker && mu.contains []), w) := by
+  unfold Overlay.exists_
+  rw [whiteoutPath_root _ rfl, writeLayer_layers2]
+  by_cases hm : mu.contains rootMarker = true
+  · simp [hm, bind, M.bind, M.ret, VPath.withStr, run_vexists h.hu, Pure.pure, M.pure]
+  · simp [hm, bind, M.bind, M.ret, VPath.withStr, run_vexists h.hu, readPath, Pure.pure, M.pure,
+      writeLayer_layers2]
+
+/-- the pure value of `exists` on a canonical path, the root included -/
+def pexists (mu ml : FMap) (p : Str) : Bool :=
+  if p = [] then (!mu.contains rootMarker && mu.contains []) else (view mu ml p).isSome
+
+theorem run_oexists_any (cs : List Str) (hcs : ∀ c ∈ cs, GoodComp c) :
+    Overlay.exists_ (layers2 u l idu idl) (renderC cs) w
+      = (.ok (pexists mu ml (renderC cs)), w) := by
+  unfold pexists
+  by_cases hne : cs = []
+  · subst hne; simp only [renderC_nil, if_true]; exact run_oexists_root h
+  · rw [if_neg (renderC_ne_nil hne)]; exact run_oexists h cs hne hcs
+
+omit h in
+theorem writePath_layers2_any (ds : List Str) (hds : ∀ c ∈ ds, GoodComp c) :
+    writePath (layers2 u l idu idl) (renderC ds)
+      = .ok { fs := leafFS u, fsId := idu, path := renderC ds } := by
+  by_cases hne : ds = []
+  · subst hne; rfl
+  · exact writePath_layers2 ds hne hds
+
+/-- `ensure_has_parent` as a function of the maps; `ds` are the components of the parent -/
+def pEnsure (mu ml : FMap) (ds : List Str) : Res Unit × FMap :=
+  if pexists mu ml (renderC ds) then Mem.mkdirs mu (chain [] ds) else (.err .other none, mu)
+
+theorem run_ensureHasParent (cs : List Str) (hne : cs ≠ []) (hcs : ∀ c ∈ cs, GoodComp c) :
+    ensureHasParent (layers2 u l idu idl) (renderC cs) w =
+      ((pEnsure mu ml cs.dropLast).1, w.setLeafFiles u (pEnsure mu ml cs.dropLast).2) := by
+  have hds : ∀ c ∈ cs.dropLast, GoodComp c := fun c hc => hcs c (List.dropLast_subset _ hc)
+  unfold ensureHasParent pEnsure
+  rw [if_pos (slash_mem_renderC hne), parentInternal_renderC cs (good_noSlash hcs),
+    writePath_layers2_any _ hds]
+  by_cases hex : pexists mu ml (renderC cs.dropLast) = true
+  · simp [hex, bind, M.bind, M.ret, run_oexists_any h _ hds, run_createDirAll h.hu idu _ hds]
+  · simp [hex, bind, M.bind, M.ret, run_oexists_any h _ hds, M.failK, fail, h.hu.same]
+
+/-- the removal of the marker by `create_dir` / `create_file` -/
+def pClear (mu : FMap) (p : Str) : Res Unit × FMap :=
+  if mu.contains (marker p) then Mem.pRemoveFile mu (marker p) else (.ok (), mu)
+
+theorem run_clearWhiteout (cs : List Str) (hne : cs ≠ []) (hcs : ∀ c ∈ cs, GoodComp c) :
+    clearWhiteout (layers2 u l idu idl) (renderC cs) w =
+      ((pClear mu (renderC cs)).1, w.setLeafFiles u (pClear mu (renderC cs)).2) := by
+  unfold clearWhiteout pClear
+  rw [whiteoutPath_layers2 cs hne hcs]
+  by_cases hm : mu.contains (marker (renderC cs)) = true
+  · simp [hm, bind, M.bind, M.ret, run_vexists h.hu, run_pRemoveFile h.hu]
+  · simp [hm, bind, M.bind, M.ret, run_vexists h.hu, Pure.pure, M.pure, h.hu.same]
+
+/-- the creation of the marker by `remove_file` / `remove_dir` -/
+def pAddWhiteout (mu : FMap) (cs : List Str) : Res Unit × FMap :=
+  andThen (Mem.mkdirs mu (chain [] (woDir :: cs.dropLast)))
+    (fun _ m1 => Mem.pTouch m1 (marker (renderC cs)))
+
+theorem run_addWhiteout (cs : List Str) (hne : cs ≠ []) (hcs : ∀ c ∈ cs, GoodComp c) :
+    addWhiteout (layers2 u l idu idl) (renderC cs) w =
+      ((pAddWhiteout mu cs).1, w.setLeafFiles u (pAddWhiteout mu cs).2) := by
+  have hds : ∀ c ∈ woDir :: cs.dropLast, GoodComp c := by
+    intro c hc
+    rcases List.mem_cons.1 hc with rfl | hc
+    · exact goodComp_woDir
+    · exact hcs c (List.dropLast_subset _ hc)
+  have hpar : parentInternal (marker (renderC cs)) = renderC (woDir :: cs.dropLast) := by
+    rcases List.eq_nil_or_concat cs with rfl | ⟨ds, n, rfl⟩
+    · exact absurd rfl hne
+    · rw [List.concat_eq_append] at hcs ⊢
+      obtain ⟨hd, hn⟩ := good_of_snoc hcs
+      rw [marker_parent ds n hd hn, woDirOf_renderC, List.dropLast_concat]
+  unfold addWhiteout pAddWhiteout
+  rw [whiteoutPath_layers2 cs hne hcs]
+  simp only [bind, M.bind, M.ret, VPath.parent, VPath.withStr, hpar,
+    run_createDirAll h.hu idu _ hds]
+  cases hmk : Mem.mkdirs mu (chain [] (woDir :: cs.dropLast)) with
+  | mk r m1 =>
+    cases r with
+    | ok a =>
+      have := run_pTouch (h.hu.set m1) idu (marker (renderC cs))
+      simp only [bind, M.bind] at this
+      simp only [andThen, this, World.setLeafFiles_twice]
+    | err k pth => simp [andThen]
+    | panic => simp [andThen]
+
+omit h in
+theorem ret_ok_bind {α β} (x : α) (f : α → M β) : (M.ret (.ok x) >>= f) = f x := rfl
+
+theorem run_mergeListings (cs : List Str) (hcs : ∀ c ∈ cs, GoodComp c) :
+    mergeListings (if renderC cs ≠ [] then tail1 (renderC cs) else renderC cs)
+        (layers2 u l idu idl) [] w =
+      (.ok (mergeStep (mergeStep [] (layerNames mu (renderC cs))) (layerNames ml (renderC cs))),
+        w) := by
+  unfold layers2
+  rw [mergeListings, join_root_actual _ rfl cs hcs, ret_ok_bind]
+  simp only [VPath.withStr]
+  rw [run_mergeLayer h.hu]
+  rw [mergeListings, join_root_actual _ rfl cs hcs, ret_ok_bind]
+  simp only [VPath.withStr]
+  rw [run_mergeLayer h.hl]
+  rfl
+
+/-- the part of `read_dir` after the checks on the read path -/
+def readDirTail (layers : List VPath) (p : Str) : M (List Str) := do
+  let entries ← mergeListings (if p ≠ [] then tail1 p else p) layers []
+  let wp ← M.ret ((writeLayer layers).join (woDir ++ p))
+  let wex ← wp.exists_
+  if wex then do
+    let marks ← wp.readDir
+    pure ((if p = [] then entries.filter (fun n => n ≠ woDir) else entries).filter
+      fun n => n ∉ marks.filterMap fun m => stripWo (filenameInternal m.path))
+  else pure (if p = [] then entries.filter (fun n => n ≠ woDir) else entries)
+
+omit h in
+theorem readDir_eq_tail (layers : List VPath) (p : Str) :
+    Overlay.readDir layers p = (do
+      let rp ← readPath layers p
+      let ex ← rp.exists_
+      if !ex then M.failK .fileNotFound
+      else do
+        let isd ← rp.isDir
+        if !isd then M.failK .other
+        else readDirTail layers p) := rfl
+
+/-- the names with a marker among the children of "/.whiteout" ++ p -/
+def markedNames (mu : FMap) (p : Str) : List Str :=
+  if mu.contains (woDirOf p) then (mu.keys.filterMap (childName (woDirOf p))).filterMap stripWo
+  else []
+
+/-- the listing `read_dir` computes: merged children, minus the bookkeeping directory at the
+root, minus the marked names -/
+def pListing (mu ml : FMap) (p : Str) : List Str :=
+  ((if p = [] then
+      (mergeStep (mergeStep [] (layerNames mu p)) (layerNames ml p)).filter (fun n => n ≠ woDir)
+    else mergeStep (mergeStep [] (layerNames mu p)) (layerNames ml p)).filter
+    fun n => n ∉ markedNames mu p)
+
+omit h in
+theorem filter_not_mem_nil (l : List Str) : l.filter (fun n => n ∉ ([] : List Str)) = l := by
+  simp
+
+omit h in
+theorem woDir_join_layers2 (cs : List Str) (hcs : ∀ c ∈ cs, GoodComp c) :
+    ({ fs := leafFS u, fsId := idu, path := [] } : VPath).join (woDir ++ renderC cs)
+      = .ok { fs := leafFS u, fsId := idu, path := woDirOf (renderC cs) } :=
+  woDir_join_canon (layers2 u 0 idu 0) rfl cs hcs
+
+theorem run_readDirTail (cs : List Str) (hcs : ∀ c ∈ cs, GoodComp c)
+    (hwo : ∀ e, mu.find? (woDirOf (renderC cs)) = some e → e.ftype = .dir) :
+    readDirTail (layers2 u l idu idl) (renderC cs) w = (.ok (pListing mu ml (renderC cs)), w) := by
+  unfold readDirTail pListing markedNames
+  simp only [bind, M.bind, run_mergeListings h cs hcs, M.ret,
+    writeLayer_layers2, woDir_join_layers2 cs hcs, run_vexists h.hu]
+  rcases Option.eq_none_or_eq_some (mu.find? (woDirOf (renderC cs))) with hf | ⟨e, hf⟩
+  · simp only [contains_of_none hf, Bool.false_eq_true, if_false, Pure.pure, M.pure,
+      filter_not_mem_nil]
+  · have hd := hwo e hf
+    have hfn := filenames_of_children (leafFS u) idu (woDirOf (renderC cs)) _
+      (children_noSlash mu (woDirOf (renderC cs)))
+    simp only [contains_of_find hf, if_true, Pure.pure, M.pure]
+    have hmarks : ∀ names : List Str, (∀ n ∈ names, '/' ∉ n) →
+        (names.map (fun n => VPath.withStr (⟨leafFS u, idu, woDirOf (renderC cs)⟩ : VPath)
+            (woDirOf (renderC cs) ++ '/' :: n))).filterMap
+          (fun m => stripWo (filenameInternal m.path)) = names.filterMap stripWo := by
+      intro names
+      induction names with
+      | nil => intro _; rfl
+      | cons n names ih =>
+        intro hn
+        simp only [List.map_cons, List.filterMap_cons, VPath.withStr]
+        rw [show filenameInternal (woDirOf (renderC cs) ++ '/' :: n) = n from
+          afterLast_append_delim '/' _ n (hn n (by simp))]
+        have := ih (fun x hx => hn x (by simp [hx]))
+        simp only [VPath.withStr] at this
+        rw [this]
+    simp only [M.bind, run_vreadDir h.hu idu _ e hf hd,
+      hmarks _ (children_noSlash mu (woDirOf (renderC cs)))]
+    rfl
+
+/-- the entry `read_dir(p)` inspects: the root of the upper layer, or the view of `p` -/
+def dirEntry? (mu ml : FMap) (p : Str) : Option Entry :=
+  if p = [] then mu.find? [] else view mu ml p
+
+omit h in
+theorem view_marked {mu ml : FMap} {p : Str} (hm : mu.contains (marker p) = true) :
+    view mu ml p = none := by unfold view; rw [if_pos hm]
+
+omit h in
+theorem view_upper {mu ml : FMap} {p : Str} {e : Entry} (hm : mu.contains (marker p) = false)
+    (hf : mu.find? p = some e) : view mu ml p = some e := by
+  unfold view; rw [hm, hf]; rfl
+
+omit h in
+theorem view_lower {mu ml : FMap} {p : Str} (hm : mu.contains (marker p) = false)
+    (hf : mu.find? p = none) : view mu ml p = ml.find? p := by
+  unfold view; rw [hm, hf]; simp
+
+/-- the outcome of `read_dir(p)` -/
+def pReadDir (mu ml : FMap) (p : Str) : Res (List Str) :=
+  match dirEntry? mu ml p with
+  | none => .err .fileNotFound none
+  | some e => if e.ftype = .dir then .ok (pListing mu ml p) else .err .other none
+
+/-- `read_dir` on a canonical path (the root included), provided "/.whiteout" ++ p is not a
+file of the upper layer -/
+theorem run_oreadDir (cs : List Str) (hcs : ∀ c ∈ cs, GoodComp c)
+    (hwo : ∀ e, mu.find? (woDirOf (renderC cs)) = some e → e.ftype = .dir) :
+    Overlay.readDir (layers2 u l idu idl) (renderC cs) w =
+      (pReadDir mu ml (renderC cs), w) := by
+  rw [readDir_eq_tail]
+  unfold pReadDir dirEntry?
+  by_cases hne : cs = []
+  · subst hne
+    have hrp : readPath (layers2 u l idu idl) (renderC []) = pure (writeLayer (layers2 u l idu idl)) := rfl
+    rw [hrp, writeLayer_layers2]
+    have htail := run_readDirTail (idu := idu) (idl := idl) h [] hcs hwo
+    simp only [renderC_nil] at htail ⊢
+    rcases Option.eq_none_or_eq_some (mu.find? []) with hf | ⟨e, hf⟩
+    · simp [hf, bind, M.bind, Pure.pure, M.pure, run_vexists h.hu, contains_of_none hf, M.failK,
+        fail]
+    · by_cases hd : e.ftype = .dir
+      · simp [hf, hd, bind, M.bind, Pure.pure, M.pure, run_vexists h.hu, contains_of_find hf,
+          run_visDir h.hu, htail]
+      · simp [hf, hd, bind, M.bind, Pure.pure, M.pure, run_vexists h.hu, contains_of_find hf,
+          run_visDir h.hu, M.failK, fail]
+  · rw [if_neg (renderC_ne_nil hne)]
+    have htail := run_readDirTail (idu := idu) (idl := idl) h cs hcs hwo
+    by_cases hm : mu.contains (marker (renderC cs)) = true
+    · simp [view_marked hm, hm, bind, M.bind, run_readPath h cs hne hcs]
+    · have hm' : mu.contains (marker (renderC cs)) = false := by simpa using hm
+      rcases Option.eq_none_or_eq_some (mu.find? (renderC cs)) with hf | ⟨e, hf⟩
+      · rw [view_lower hm' hf]
+        rcases Option.eq_none_or_eq_some (ml.find? (renderC cs)) with hg | ⟨e, hg⟩
+        · simp [hm', hg, bind, M.bind, run_readPath h cs hne hcs, contains_of_none hf,
+            contains_of_none hg]
+        · by_cases hd : e.ftype = .dir
+          · simp [hm', hg, hd, bind, M.bind, run_readPath h cs hne hcs, contains_of_none hf,
+              contains_of_find hg, run_vexists h.hl, run_visDir h.hl, htail]
+          · simp [hm', hg, hd, bind, M.bind, run_readPath h cs hne hcs, contains_of_none hf,
+              contains_of_find hg, run_vexists h.hl, run_visDir h.hl, M.failK, fail]
+      · rw [view_upper hm' hf]
+        by_cases hd : e.ftype = .dir
+        · simp [hm', hf, hd, bind, M.bind, run_readPath h cs hne hcs,
+            contains_of_find hf, run_vexists h.hu, run_visDir h.hu, htail]
+        · simp [hm', hf, hd, bind, M.bind, run_readPath h cs hne hcs,
+            contains_of_find hf, run_vexists h.hu, run_visDir h.hu, M.failK, fail]
+
+/-- `read_path(p)?.metadata()` followed by anything -/
+theorem run_readPath_metadata {β} (cs : List Str) (hne : cs ≠ []) (hcs : ∀ c ∈ cs, GoodComp c)
+    (k : Meta → M β) :
+    (do let q ← readPath (layers2 u l idu idl) (renderC cs)
+        let md ← q.metadata
+        k md : M β) w =
+      (match view mu ml (renderC cs) with
+       | some e => k e.meta w
+       | none => (.err .fileNotFound none, w)) := by
+  by_cases hm : mu.contains (marker (renderC cs)) = true
+  · simp [view_marked hm, hm, bind, M.bind, run_readPath h cs hne hcs]
+  · have hm' : mu.contains (marker (renderC cs)) = false := by simpa using hm
+    rcases Option.eq_none_or_eq_some (mu.find? (renderC cs)) with hf | ⟨e, hf⟩
+    · rw [view_lower hm' hf]
+      rcases Option.eq_none_or_eq_some (ml.find? (renderC cs)) with hg | ⟨e, hg⟩
+      · simp [hm', hg, bind, M.bind, run_readPath h cs hne hcs, contains_of_none hf,
+          contains_of_none hg]
+      · simp [hm', hg, bind, M.bind, run_readPath h cs hne hcs, contains_of_none hf,
+          contains_of_find hg, run_vmetadata h.hl, Mem.metadata, Res.withPath]
+    · rw [view_upper hm' hf]
+      simp [hm', hf, bind, M.bind, run_readPath h cs hne hcs, contains_of_find hf,
+        run_vmetadata h.hu, Mem.metadata, Res.withPath]
+
+/-! #### the mutating methods as functions of the maps -/
+
+/-- `create_dir` -/
+def pCreateDir (mu ml : FMap) (cs : List Str) : Res Unit × FMap :=
+  andThen (pEnsure mu ml cs.dropLast) fun _ mu1 =>
+    match view mu1 ml (renderC cs) with
+    | some e => (.err (if e.ftype = .file then .fileExists else .dirExists) none, mu1)
+    | none => andThen (Mem.pCreateDir mu1 (renderC cs)) fun _ mu2 => pClear mu2 (renderC cs)
+
+theorem run_ocreateDir (cs : List Str) (hne : cs ≠ []) (hcs : ∀ c ∈ cs, GoodComp c) :
+    Overlay.createDir (layers2 u l idu idl) (renderC cs) w =
+      ((pCreateDir mu ml cs).1, w.setLeafFiles u (pCreateDir mu ml cs).2) := by
+  unfold Overlay.createDir pCreateDir
+  simp only [bind, M.bind, run_ensureHasParent h cs hne hcs]
+  cases hE : pEnsure mu ml cs.dropLast with
+  | mk r mu1 =>
+    cases r with
+    | err k pth => rfl
+    | panic => rfl
+    | ok a =>
+      have h1 := h.setU mu1
+      have hmeta := run_readPath_metadata (idu := idu) (idl := idl) h1 cs hne hcs
+        (fun md => (M.failK (if md.ftype = .file then .fileExists else .dirExists) : M Unit))
+      simp only [bind, M.bind, M.failK, fail, Entry.meta] at hmeta
+      simp only [andThen, run_oexists h1 cs hne hcs]
+      rcases Option.eq_none_or_eq_some (view mu1 ml (renderC cs)) with hv | ⟨e, hv⟩
+      · simp only [hv, Option.isSome_none, Bool.false_eq_true, if_false, M.ret, M.bind,
+          writePath_layers2 cs hne hcs, run_pCreateDir h1.hu]
+        cases hC : Mem.pCreateDir mu1 (renderC cs) with
+        | mk r2 mu2 =>
+          cases r2 with
+          | err k pth => simp only [World.setLeafFiles_twice]
+          | panic => simp only [World.setLeafFiles_twice]
+          | ok a2 =>
+            simp only [run_clearWhiteout (h.setU mu2) cs hne hcs, World.setLeafFiles_twice]
+      · rw [hv] at hmeta
+        simp only [hv, Option.isSome_some, if_true, M.bind, M.failK, fail]
+        exact hmeta
+
+/-- the type check of `create_file` -/
+def pRefuse (mu ml : FMap) (p : Str) : Res Unit :=
+  match view mu ml p with
+  | some e => if e.ftype = .dir then .err .other none else .ok ()
+  | none => .ok ()
+
+theorem run_refuseDir (cs : List Str) (hne : cs ≠ []) (hcs : ∀ c ∈ cs, GoodComp c) :
+    refuseDir (layers2 u l idu idl) (renderC cs) w = (pRefuse mu ml (renderC cs), w) := by
+  unfold refuseDir pRefuse
+  have hmeta := run_readPath_metadata (idu := idu) (idl := idl) h cs hne hcs
+    (fun md => (if md.ftype = .dir then M.failK .other else pure () : M Unit))
+  simp only [bind, M.bind] at hmeta
+  simp only [bind, M.bind, run_oexists h cs hne hcs]
+  rcases Option.eq_none_or_eq_some (view mu ml (renderC cs)) with hv | ⟨e, hv⟩
+  · simp [hv, Pure.pure, M.pure]
+  · simp only [hv, Option.isSome_some, if_true, M.bind, hmeta, Entry.meta]
+    by_cases hd : e.ftype = .dir
+    · simp [hd, M.failK, fail]
+    · simp [hd, Pure.pure, M.pure]
+
+/-- `VfsPath::create_file` on the upper layer, without the write session -/
+def Mem.pOpenW (m : FMap) (p : Str) : Res Unit × FMap :=
+  if Mem.parentOk m p then ((Mem.createFile m p).1.withPath p, (Mem.createFile m p).2)
+  else (.err .other (some p), m)
+
+omit h in
+theorem run_pOpenW {w : World} {i : Nat} {m : FMap} (h : MemLeafAt w i m) (id : Nat) (p : Str) :
+    VPath.createFile { fs := leafFS i, fsId := id, path := p } w =
+      ((Mem.pOpenW m p).1.map
+        (fun _ => ({ leaf := i, key := p, kind := .memFile, buf := [], pos := 0 } : WHandle)),
+        w.setLeafFiles i (Mem.pOpenW m p).2) := by
+  unfold VPath.createFile Mem.pOpenW
+  simp only [bind, M.bind, run_getParent h]
+  by_cases hp : Mem.parentOk m p = true
+  · simp only [hp, ↓reduceIte, M.withPath, run_createFile h]
+    cases (Mem.createFile m p).1 <;> rfl
+  · simp only [hp, Bool.false_eq_true, ↓reduceIte, h.same]; rfl
+
+/-- `create_file` (the handle aside) -/
+def pCreateFile (mu ml : FMap) (cs : List Str) : Res Unit × FMap :=
+  andThen (pEnsure mu ml cs.dropLast) fun _ mu1 =>
+    andThen (pRefuse mu1 ml (renderC cs), mu1) fun _ _ =>
+      andThen (Mem.pOpenW mu1 (renderC cs)) fun _ mu2 => pClear mu2 (renderC cs)
+
+theorem run_ocreateFile (cs : List Str) (hne : cs ≠ []) (hcs : ∀ c ∈ cs, GoodComp c) :
+    Overlay.createFile (layers2 u l idu idl) (renderC cs) w =
+      ((pCreateFile mu ml cs).1.map
+        (fun _ => ({ leaf := u, key := renderC cs, kind := .memFile, buf := [], pos := 0 } : WHandle)),
+        w.setLeafFiles u (pCreateFile mu ml cs).2) := by
+  unfold Overlay.createFile pCreateFile
+  simp only [bind, M.bind, run_ensureHasParent h cs hne hcs]
+  cases hE : pEnsure mu ml cs.dropLast with
+  | mk r mu1 =>
+    cases r with
+    | err k pth => rfl
+    | panic => rfl
+    | ok a =>
+      have h1 := h.setU mu1
+      simp only [andThen, run_refuseDir h1 cs hne hcs]
+      cases hR : pRefuse mu1 ml (renderC cs) with
+      | err k pth => rfl
+      | panic => rfl
+      | ok a1 =>
+        simp only [M.ret, M.bind, writePath_layers2 cs hne hcs, run_pOpenW h1.hu]
+        cases hC : Mem.pOpenW mu1 (renderC cs) with
+        | mk r2 mu2 =>
+          cases r2 with
+          | err k pth => simp only [Res.map, World.setLeafFiles_twice]
+          | panic => simp only [Res.map, World.setLeafFiles_twice]
+          | ok a2 =>
+            simp only [Res.map, World.setLeafFiles_twice,
+              run_clearWhiteout (h.setU mu2) cs hne hcs]
+            cases hP : pClear mu2 (renderC cs) with
+            | mk r3 mu3 => cases r3 <;> rfl
+
+/-- `remove_file` -/
+def pRemoveFile (mu ml : FMap) (cs : List Str) : Res Unit × FMap :=
+  match view mu ml (renderC cs) with
+  | none => (.err .fileNotFound none, mu)
+  | some _ =>
+    andThen (if mu.contains (renderC cs) then Mem.pRemoveFile mu (renderC cs) else (.ok (), mu))
+      fun _ m1 => pAddWhiteout m1 cs
+
+theorem run_readPath_then {β} (cs : List Str) (hne : cs ≠ []) (hcs : ∀ c ∈ cs, GoodComp c)
+    (k : M β) :
+    (do let _ ← readPath (layers2 u l idu idl) (renderC cs)
+        k : M β) w =
+      (match view mu ml (renderC cs) with
+       | some _ => k w
+       | none => (.err .fileNotFound none, w)) := by
+  by_cases hm : mu.contains (marker (renderC cs)) = true
+  · simp [view_marked hm, hm, bind, M.bind, run_readPath h cs hne hcs]
+  · have hm' : mu.contains (marker (renderC cs)) = false := by simpa using hm
+    rcases Option.eq_none_or_eq_some (mu.find? (renderC cs)) with hf | ⟨e, hf⟩
+    · rw [view_lower hm' hf]
+      rcases Option.eq_none_or_eq_some (ml.find? (renderC cs)) with hg | ⟨e, hg⟩
+      · simp [hm', hg, bind, M.bind, run_readPath h cs hne hcs, contains_of_none hf,
+          contains_of_none hg]
+      · simp [hm', hg, bind, M.bind, run_readPath h cs hne hcs, contains_of_none hf,
+          contains_of_find hg]
+    · rw [view_upper hm' hf]
+      simp [hm', hf, bind, M.bind, run_readPath h cs hne hcs, contains_of_find hf]
+
+theorem run_oremoveFile (cs : List Str) (hne : cs ≠ []) (hcs : ∀ c ∈ cs, GoodComp c) :
+    Overlay.removeFile (layers2 u l idu idl) (renderC cs) w =
+      ((pRemoveFile mu ml cs).1, w.setLeafFiles u (pRemoveFile mu ml cs).2) := by
+  unfold Overlay.removeFile pRemoveFile
+  rw [run_readPath_then h cs hne hcs]
+  rcases Option.eq_none_or_eq_some (view mu ml (renderC cs)) with hv | ⟨e, hv⟩
+  · simp only [hv, h.hu.same]
+  · simp only [hv, bind, M.bind, M.ret, writePath_layers2 cs hne hcs, run_vexists h.hu]
+    by_cases hc : mu.contains (renderC cs) = true
+    · simp only [hc, if_true, run_pRemoveFile h.hu]
+      cases hR : Mem.pRemoveFile mu (renderC cs) with
+      | mk r m1 =>
+        cases r with
+        | err k pth => rfl
+        | panic => rfl
+        | ok a =>
+          simp only [andThen, World.setLeafFiles_twice, run_addWhiteout (h.setU m1) cs hne hcs]
+    · simp only [hc, Bool.false_eq_true, if_false, Pure.pure, M.pure, andThen,
+        run_addWhiteout h cs hne hcs]
+
+/-- `remove_dir` -/
+def pRemoveDir (mu ml : FMap) (cs : List Str) : Res Unit × FMap :=
+  match view mu ml (renderC cs) with
+  | none => (.err .fileNotFound none, mu)
+  | some _ =>
+    match pReadDir mu ml (renderC cs) with
+    | .ok l =>
+      if l ≠ [] then (.err .other none, mu)
+      else
+        andThen (if mu.contains (renderC cs) then Mem.pRemoveDir mu (renderC cs) else (.ok (), mu))
+          fun _ m1 => pAddWhiteout m1 cs
+    | .err k pth => (.err k pth, mu)
+    | .panic => (.panic, mu)
+
+theorem run_oremoveDir (cs : List Str) (hne : cs ≠ []) (hcs : ∀ c ∈ cs, GoodComp c)
+    (hwo : ∀ e, mu.find? (woDirOf (renderC cs)) = some e → e.ftype = .dir) :
+    Overlay.removeDir (layers2 u l idu idl) (renderC cs) w =
+      ((pRemoveDir mu ml cs).1, w.setLeafFiles u (pRemoveDir mu ml cs).2) := by
+  unfold Overlay.removeDir pRemoveDir
+  rw [run_readPath_then h cs hne hcs]
+  rcases Option.eq_none_or_eq_some (view mu ml (renderC cs)) with hv | ⟨e, hv⟩
+  · simp only [hv, h.hu.same]
+  · simp only [hv, bind, M.bind, run_oreadDir h cs hcs hwo]
+    cases hL : pReadDir mu ml (renderC cs) with
+    | err k pth => simp only [h.hu.same]
+    | panic => simp only [h.hu.same]
+    | ok lst =>
+      by_cases hl : lst ≠ []
+      · simp only [hl, ne_eq, not_false_eq_true, if_true, M.failK, fail, h.hu.same]
+      · simp only [hl, if_false, M.ret, M.bind, writePath_layers2 cs hne hcs, run_vexists h.hu]
+        by_cases hc : mu.contains (renderC cs) = true
+        · simp only [hc, if_true, run_pRemoveDir h.hu]
+          cases hR : Mem.pRemoveDir mu (renderC cs) with
+          | mk r m1 =>
+            cases r with
+            | err k pth => rfl
+            | panic => rfl
+            | ok a =>
+              simp only [andThen, World.setLeafFiles_twice, run_addWhiteout (h.setU m1) cs hne hcs]
+        · simp only [hc, Bool.false_eq_true, if_false, Pure.pure, M.pure, andThen,
+            run_addWhiteout h cs hne hcs]
+
+/-- `copy_file` from the lower layer's file `p` to the absent upper path `q` -/
+theorem run_vcopyFile_up (p q : Str) (e : Entry) (hl0 : ml.find? p = some e)
+    (hfile : e.ftype = .file) (hq : mu.find? q = none) (hs : '/' ∈ q)
+    (hpar : Mem.parentOk mu q = true) :
+    ∃ w', VPath.copyFile { fs := leafFS l, fsId := idl, path := p }
+        { fs := leafFS u, fsId := idu, path := q } w = (.ok (), w') ∧
+      OW w' u l (memPublish (mu.insert q fileEntryNow) q e.content)
+        (ml.insert p { e with accessed := .now }) := by
+  have hopen := Mem.openFile_some ml p e hl0
+  rw [if_neg (by simp [hfile])] at hopen
+  have h2 := h.setL (ml.insert p { e with accessed := .now })
+  have hcreate : Mem.pOpenW mu q = (.ok (), mu.insert q fileEntryNow) := by
+    unfold Mem.pOpenW
+    rw [if_pos hpar, Mem.createFile_fresh mu q hs (parentOk_contains hpar) hq]; rfl
+  have h3 := h2.setU (mu.insert q fileEntryNow)
+  refine ⟨_, ?_, (h2.setU (memPublish (mu.insert q fileEntryNow) q e.content))⟩
+  unfold VPath.copyFile
+  by_cases hid : idl = idu
+  · simp [hid, bind, M.bind, M.withPath, M.attempt, M.ret, run_vexists h.hu, contains_of_none hq,
+      run_copyFile_mem h.hl, fail, run_vopenFile h.hl, hopen, Res.withPath,
+      run_pOpenW h2.hu, hcreate, Res.map, run_ioCopyAndDrop h3.hu, World.setLeafFiles_twice]
+  · simp [hid, bind, M.bind, M.withPath, M.attempt, M.ret, run_vexists h.hu, contains_of_none hq,
+      fail, run_vopenFile h.hl, hopen, Res.withPath, Pure.pure, M.pure,
+      run_pOpenW h2.hu, hcreate, Res.map, run_ioCopyAndDrop h3.hu, World.setLeafFiles_twice]
+
+omit h in
+theorem find?_memPublish_self (m : FMap) (k : Str) (buf : Bytes) :
+    ∃ e, (memPublish m k buf).find? k = some e ∧ e.ftype = .file ∧ e.content = buf := by
+  unfold memPublish
+  exact ⟨_, FMap.find?_insert_self _ _ _, rfl, rfl⟩
+
+omit h in
+theorem find?_memPublish_ne (m : FMap) (k k' : Str) (buf : Bytes) (hk : k' ≠ k) :
+    (memPublish m k buf).find? k' = m.find? k' := by
+  unfold memPublish
+  exact FMap.find?_insert_ne _ _ _ _ hk
+
+/-- `append_file` on a path that only the lower layer has (as a file): the copy-up, then the
+append handle on the upper copy -/
+theorem run_oappendFile_copyUp (cs : List Str) (hne : cs ≠ []) (hcs : ∀ c ∈ cs, GoodComp c)
+    (mu1 : FMap) (hE : pEnsure mu ml cs.dropLast = (.ok (), mu1))
+    (hc0 : mu.find? (renderC cs) = none)
+    (hm1 : mu1.contains (marker (renderC cs)) = false) (hf1 : mu1.find? (renderC cs) = none)
+    (hpar : Mem.parentOk mu1 (renderC cs) = true)
+    (e : Entry) (hl0 : ml.find? (renderC cs) = some e) (hfile : e.ftype = .file) :
+    ∃ w', Overlay.appendFile (layers2 u l idu idl) (renderC cs) w =
+        (.ok { leaf := u, key := renderC cs, kind := .memFile, buf := e.content,
+               pos := e.content.length }, w') ∧
+      OW w' u l (memPublish (mu1.insert (renderC cs) fileEntryNow) (renderC cs) e.content)
+        (ml.insert (renderC cs) { e with accessed := .now }) := by
+  have h1 := h.setU mu1
+  obtain ⟨w', hcp, hw'⟩ := run_vcopyFile_up (idu := idu) (idl := idl) h1 (renderC cs) (renderC cs) e
+    hl0 hfile hf1 (slash_mem_renderC hne) hpar
+  refine ⟨w', ?_, hw'⟩
+  obtain ⟨e', he', hft, hct⟩ := find?_memPublish_self (mu1.insert (renderC cs) fileEntryNow)
+    (renderC cs) e.content
+  have happ : Mem.appendFile (memPublish (mu1.insert (renderC cs) fileEntryNow) (renderC cs)
+      e.content) (renderC cs) = .ok e.content := by
+    unfold Mem.appendFile
+    rw [he']; simp [hft, hct]
+  unfold Overlay.appendFile copyUp
+  simp [bind, M.bind, M.ret, writePath_layers2 cs hne hcs, run_vexists h.hu,
+    contains_of_none hc0, run_ensureHasParent h cs hne hcs, hE,
+    run_readPath h1 cs hne hcs, hm1, contains_of_none hf1, contains_of_find hl0,
+    run_visFile h1.hl, hl0, hfile, hcp, VPath.appendFile, M.withPath, run_appendFile hw'.hu,
+    happ, Res.map, Res.withPath]
+
+end run2
+
+/-! ### the listing is the set of children of the union view -/
+
+/-- children of `p` in `m` only exist when `p` is a directory of `m` (a consequence of `WF m`) -/
+def ChildrenHaveDir (m : FMap) (p : Str) : Prop :=
+  ∀ n, '/' ∉ n → m.contains (p ++ '/' :: n) = true → ∃ e, m.find? p = some e ∧ e.ftype = .dir
+
+theorem WF.childrenHaveDir {m : FMap} (h : WF m) (p : Str) : ChildrenHaveDir m p := by
+  intro n hn hc
+  obtain ⟨e, he⟩ := (FMap.contains_iff _ _).1 hc
+  obtain ⟨_, pe, h1, h2⟩ := h.2 _ e he (by simp)
+  rw [parent_of_child p n hn] at h1
+  exact ⟨pe, h1, h2⟩
+
+theorem mem_layerNames (m : FMap) (p n : Str) (hm : ChildrenHaveDir m p) :
+    n ∈ layerNames m p ↔ ('/' ∉ n ∧ m.contains (p ++ '/' :: n) = true) := by
+  unfold layerNames
+  rcases Option.eq_none_or_eq_some (m.find? p) with hf | ⟨e, hf⟩
+  · simp only [hf, List.not_mem_nil, false_iff, not_and]
+    intro hn hc
+    obtain ⟨e, he, _⟩ := hm n hn hc
+    rw [hf] at he; cases he
+  · by_cases hd : e.ftype = .dir
+    · simp only [hf, hd, if_true]; exact mem_children m p n
+    · simp only [hf, hd, if_false, List.not_mem_nil, false_iff, not_and]
+      intro hn hc
+      obtain ⟨e', he', hd'⟩ := hm n hn hc
+      rw [hf] at he'; injection he' with he'; subst he'; exact absurd hd' hd
+
+theorem mem_mergeStep (acc names : List Str) (x : Str) :
+    x ∈ mergeStep acc names ↔ x ∈ acc ∨ x ∈ names := C05.merge_mem names acc x
+
+theorem nodup_mergeStep (acc names : List Str) (h : acc.Nodup) : (mergeStep acc names).Nodup :=
+  C05.merge_nodup names acc h
+
+theorem mem_markedNames (mu : FMap) (p n : Str) (hn : '/' ∉ n)
+    (hwo : mu.contains (marker (p ++ '/' :: n)) = true → mu.contains (woDirOf p) = true) :
+    n ∈ markedNames mu p ↔ mu.contains (marker (p ++ '/' :: n)) = true := by
+  have hnw : '/' ∉ n ++ woSuffix := by
+    simp only [List.mem_append, not_or]; exact ⟨hn, by decide⟩
+  unfold markedNames
+  constructor
+  · intro h
+    split at h
+    · rw [List.mem_filterMap] at h
+      obtain ⟨k, hk, hs⟩ := h
+      rw [stripWo_some_iff] at hs
+      subst hs
+      rw [marker_child]
+      exact ((mem_children mu _ _).1 hk).2
+    · cases h
+  · intro h
+    rw [if_pos (hwo h)]
+    rw [List.mem_filterMap]
+    refine ⟨n ++ woSuffix, ?_, stripWo_append n⟩
+    rw [mem_children]
+    rw [marker_child] at h
+    exact ⟨hnw, h⟩
+
+/-- **the listing is the union**: a name is listed iff it is a bare name, the union view has an
+entry at `p/name`, and it is not the bookkeeping directory at the root -/
+theorem mem_pListing (mu ml : FMap) (p n : Str) (hmu : ChildrenHaveDir mu p)
+    (hml : ChildrenHaveDir ml p) (hwo : ChildrenHaveDir mu (woDirOf p)) :
+    n ∈ pListing mu ml p ↔
+      ('/' ∉ n ∧ (view mu ml (p ++ '/' :: n)).isSome = true ∧ (p = [] → n ≠ woDir)) := by
+  have hmem : n ∈ mergeStep (mergeStep [] (layerNames mu p)) (layerNames ml p) ↔
+      ('/' ∉ n ∧ (mu.contains (p ++ '/' :: n) = true ∨ ml.contains (p ++ '/' :: n) = true)) := by
+    rw [mem_mergeStep, mem_mergeStep, mem_layerNames mu p n hmu, mem_layerNames ml p n hml]
+    simp only [List.not_mem_nil, false_or]
+    constructor
+    · rintro (⟨a, b⟩ | ⟨a, b⟩)
+      · exact ⟨a, Or.inl b⟩
+      · exact ⟨a, Or.inr b⟩
+    · rintro ⟨a, b | b⟩
+      · exact Or.inl ⟨a, b⟩
+      · exact Or.inr ⟨a, b⟩
+  have hmark : '/' ∉ n → (n ∈ markedNames mu p ↔ mu.contains (marker (p ++ '/' :: n)) = true) := by
+    intro hn
+    apply mem_markedNames mu p n hn
+    intro hc
+    rw [marker_child] at hc
+    obtain ⟨e, he, _⟩ := hwo (n ++ woSuffix)
+      (by simp only [List.mem_append, not_or]; exact ⟨hn, by decide⟩) hc
+    exact contains_of_find he
+  unfold pListing
+  rw [view_isSome]
+  by_cases hp : p = []
+  · simp only [hp, if_true, List.mem_filter, decide_eq_true_eq, ne_eq] at hmem hmark ⊢
+    rw [hmem]
+    constructor
+    · rintro ⟨⟨⟨hn, hc⟩, hw⟩, hk⟩
+      rw [hmark hn] at hk
+      refine ⟨hn, ?_, fun _ => hw⟩
+      simp only [Bool.and_eq_true, Bool.not_eq_true', Bool.or_eq_true]
+      exact ⟨by simpa using hk, hc⟩
+    · rintro ⟨hn, hv, hw⟩
+      simp only [Bool.and_eq_true, Bool.not_eq_true', Bool.or_eq_true] at hv
+      refine ⟨⟨⟨hn, hv.2⟩, hw trivial⟩, ?_⟩
+      rw [hmark hn]; simpa using hv.1
+  · simp only [hp, if_false, List.mem_filter, decide_eq_true_eq, false_implies, and_true]
+    rw [hmem]
+    constructor
+    · rintro ⟨⟨hn, hc⟩, hk⟩
+      rw [hmark hn] at hk
+      refine ⟨hn, ?_⟩
+      simp only [Bool.and_eq_true, Bool.not_eq_true', Bool.or_eq_true]
+      exact ⟨by simpa using hk, hc⟩
+    · rintro ⟨hn, hv⟩
+      simp only [Bool.and_eq_true, Bool.not_eq_true', Bool.or_eq_true] at hv
+      refine ⟨⟨hn, hv.2⟩, ?_⟩
+      rw [hmark hn]; simp [hv.1]
+
+theorem nodup_pListing (mu ml : FMap) (p : Str) : (pListing mu ml p).Nodup := by
+  unfold pListing
+  have := nodup_mergeStep (mergeStep [] (layerNames mu p)) (layerNames ml p)
+    (nodup_mergeStep [] (layerNames mu p) List.nodup_nil)
+  apply List.Nodup.sublist List.filter_sublist
+  split
+  · exact List.Nodup.sublist List.filter_sublist this
+  · exact this
+
+/-- the bookkeeping directory is never listed at the root -/
+theorem woDir_not_listed (mu ml : FMap) : woDir ∉ pListing mu ml [] := by
+  unfold pListing
+  simp
+
+/-! ### `ensure_has_parent` does not change the union view -/
+
+/-- every proper ancestor directory `/d1`, `/d1/d2`, … is a directory of the union view -/
+def AncDirs (mu ml : FMap) (ds : List Str) : Prop :=
+  ∀ j, 1 ≤ j → j ≤ ds.length → ∃ e, view mu ml (renderC (ds.take j)) = some e ∧ e.ftype = .dir
+
+/-- the root of the upper layer is a directory and the root marker "/.whiteout/_wo" is absent -/
+structure RootOk (mu : FMap) : Prop where
+  root : ∃ e, mu.find? [] = some e ∧ e.ftype = .dir
+  noMark : mu.contains rootMarker = false
+
+/-- an entry up to the timestamps (and the meaningless content) of directories -/
+def dirBlind (e : Entry) : Entry := if e.ftype = .dir then dirEntryNow else e
+
+theorem dirBlind_ftype (e : Entry) : (dirBlind e).ftype = e.ftype := by
+  unfold dirBlind; split
+  · rename_i h; rw [h]; rfl
+  · rfl
+
+theorem dirBlind_file (e : Entry) (h : e.ftype = .file) : dirBlind e = e := by
+  unfold dirBlind; rw [if_neg (by rw [h]; simp)]
+
+theorem view_some_cases {mu ml : FMap} {p : Str} {e : Entry} (h : view mu ml p = some e) :
+    mu.contains (marker p) = false ∧
+      (mu.find? p = some e ∨ (mu.find? p = none ∧ ml.find? p = some e)) := by
+  unfold view at h
+  split at h
+  · cases h
+  · rename_i hm
+    refine ⟨by simpa using hm, ?_⟩
+    rcases Option.eq_none_or_eq_some (mu.find? p) with hf | ⟨e', hf⟩
+    · right; rw [hf] at h; simp at h; exact ⟨hf, h⟩
+    · left; rw [hf] at h; simp at h; rw [hf, h]
+
+theorem pexists_of_anc {mu ml : FMap} {ds : List Str} (hroot : RootOk mu)
+    (hanc : AncDirs mu ml ds) : pexists mu ml (renderC ds) = true := by
+  unfold pexists
+  by_cases hne : ds = []
+  · subst hne
+    obtain ⟨e, he, _⟩ := hroot.root
+    simp [hroot.noMark, contains_of_find he]
+  · rw [if_neg (renderC_ne_nil hne)]
+    have hl : 1 ≤ ds.length := by
+      cases ds with
+      | nil => exact absurd rfl hne
+      | cons d ds => simp
+    obtain ⟨e, he, _⟩ := hanc ds.length hl (Nat.le_refl _)
+    rw [List.take_length] at he
+    rw [he]; rfl
+
+theorem chain_dirs_of_anc {mu ml : FMap} {ds : List Str} (hanc : AncDirs mu ml ds) :
+    ∀ k ∈ chain [] ds, ∀ e, mu.find? k = some e → e.ftype = .dir := by
+  intro k hk e he
+  obtain ⟨j, h1, h2, rfl⟩ := (mem_chain [] ds k).1 hk
+  obtain ⟨e', hv, hd⟩ := hanc j h1 h2
+  simp only [List.nil_append] at he
+  obtain ⟨_, hc | ⟨hc, _⟩⟩ := view_some_cases hv
+  · rw [he] at hc; injection hc with hc; subst hc; exact hd
+  · rw [he] at hc; cases hc
+
+/-- under the hypotheses, `ensure_has_parent` succeeds and only fills in missing directories -/
+theorem pEnsure_ok {mu ml : FMap} {ds : List Str} (hroot : RootOk mu)
+    (hds : ∀ c ∈ ds, GoodComp c) (hanc : AncDirs mu ml ds) :
+    pEnsure mu ml ds = (.ok (), fillDirs mu (chain [] ds)) := by
+  unfold pEnsure
+  rw [if_pos (pexists_of_anc hroot hanc)]
+  obtain ⟨e, he, _⟩ := hroot.root
+  exact mkdirs_chain mu [] ds (by simp) (good_noSlash hds) (contains_of_find he)
+    (chain_dirs_of_anc hanc)
+
+theorem marker_not_in_chain {ds : List Str} (hds : ∀ c ∈ ds, GoodComp c)
+    (hhead : ds.head? ≠ some woDir) (q : Str) (hq : q.head? = some '/') :
+    marker q ∉ chain [] ds := by
+  intro hk
+  obtain ⟨j, h1, h2, he⟩ := (mem_chain [] ds _).1 hk
+  simp only [List.nil_append] at he
+  have := renderC_eq_marker_head (ds.take j) q
+    (fun c hc => (hds c (List.mem_of_mem_take hc)).noSlash) he.symm hq
+  apply hhead
+  cases ds with
+  | nil => simp at h2; omega
+  | cons d ds =>
+    obtain ⟨i, rfl⟩ : ∃ i, j = i + 1 := ⟨j - 1, by omega⟩
+    simpa using this
+
+theorem snoc_not_in_chain {ds : List Str} {n : Str} (hds : ∀ c ∈ ds, GoodComp c)
+    (hn : GoodComp n) (rest : Str) (hr : rest = [] ∨ rest.head? = some '/') :
+    renderC (ds ++ [n]) ++ rest ∉ chain [] ds := by
+  intro hk
+  obtain ⟨j, h1, h2, he⟩ := (mem_chain [] ds _).1 hk
+  simp only [List.nil_append] at he
+  -- compare lengths: the left side is strictly longer than every prefix of `renderC ds`
+  have hlen : ∀ (a : List Str), (renderC (a.take j)).length ≤ (renderC a).length := by
+    intro a
+    conv => rhs; rw [← List.take_append_drop j a, renderC_append]
+    simp
+  have := congrArg List.length he
+  have h3 := hlen ds
+  simp only [renderC_append, renderC_cons, renderC_nil, List.length_append, List.length_cons,
+    List.append_nil] at this
+  omega
+
+theorem contains_marker_fillDirs {mu : FMap} {ds : List Str} (hds : ∀ c ∈ ds, GoodComp c)
+    (hhead : ds.head? ≠ some woDir) (q : Str) (hq : q.head? = some '/') :
+    (fillDirs mu (chain [] ds)).contains (marker q) = mu.contains (marker q) := by
+  unfold FMap.contains
+  rw [find?_fillDirs_not_mem _ _ _ (marker_not_in_chain hds hhead q hq)]
+
+/-- **`ensure_has_parent` leaves the union view unchanged** (up to the timestamps of the
+directories it materialises in the upper layer) -/
+theorem view_fillDirs {mu ml : FMap} {ds : List Str} (hds : ∀ c ∈ ds, GoodComp c)
+    (hanc : AncDirs mu ml ds) (hhead : ds.head? ≠ some woDir) (q : Str)
+    (hq : q.head? = some '/') :
+    (view (fillDirs mu (chain [] ds)) ml q).map dirBlind = (view mu ml q).map dirBlind := by
+  unfold view
+  rw [contains_marker_fillDirs hds hhead q hq]
+  by_cases hm : mu.contains (marker q) = true
+  · simp [hm]
+  · simp only [hm, Bool.false_eq_true, if_false]
+    rw [find?_fillDirs]
+    rcases Option.eq_none_or_eq_some (mu.find? q) with hf | ⟨e, hf⟩
+    · by_cases hk : q ∈ chain [] ds
+      · obtain ⟨j, h1, h2, he⟩ := (mem_chain [] ds _).1 hk
+        simp only [List.nil_append] at he
+        obtain ⟨e', hv, hd⟩ := hanc j h1 h2
+        rw [← he] at hv
+        obtain ⟨_, hc | ⟨_, hc⟩⟩ := view_some_cases hv
+        · rw [hf] at hc; cases hc
+        · simp [hf, hk, hc, dirBlind, hd, dirEntryNow]
+      · simp [hf, hk]
+    · simp [hf]
+
+theorem find?_snoc_fillDirs {mu : FMap} {ds : List Str} {n : Str} (hds : ∀ c ∈ ds, GoodComp c)
+    (hn : GoodComp n) (rest : Str) (hr : rest = [] ∨ rest.head? = some '/') :
+    (fillDirs mu (chain [] ds)).find? (renderC (ds ++ [n]) ++ rest)
+      = mu.find? (renderC (ds ++ [n]) ++ rest) :=
+  find?_fillDirs_not_mem _ _ _ (snoc_not_in_chain hds hn rest hr)
+
+/-- after the chain of directories has been filled in, the parent of `ds/n` is a directory -/
+theorem parentOk_fillDirs_gen {m : FMap} {ds : List Str} {n : Str}
+    (hrootdir : ∃ e, m.find? [] = some e ∧ e.ftype = .dir)
+    (hds : ∀ c ∈ ds, GoodComp c) (hn : GoodComp n)
+    (hdirs : ∀ k ∈ chain [] ds, ∀ e, m.find? k = some e → e.ftype = .dir) :
+    Mem.parentOk (fillDirs m (chain [] ds)) (renderC (ds ++ [n])) = true := by
+  unfold Mem.parentOk
+  rw [parent_snoc ds n hds hn, find?_fillDirs]
+  by_cases hne : ds = []
+  · subst hne
+    obtain ⟨e, he, hd⟩ := hrootdir
+    simp [he, hd]
+  · have hl : 1 ≤ ds.length := by
+      cases ds with
+      | nil => exact absurd rfl hne
+      | cons d ds => simp
+    have hk : renderC ds ∈ chain [] ds :=
+      (mem_chain [] ds _).2 ⟨ds.length, hl, Nat.le_refl _, by simp⟩
+    rcases Option.eq_none_or_eq_some (m.find? (renderC ds)) with hf | ⟨e, hf⟩
+    · simp [hf, hk, dirEntryNow]
+    · have := hdirs _ hk e hf
+      simp [hf, this]
+
+/-- after `ensure_has_parent` the parent is a directory of the upper layer -/
+theorem parentOk_fillDirs {mu ml : FMap} {ds : List Str} {n : Str} (hroot : RootOk mu)
+    (hds : ∀ c ∈ ds, GoodComp c) (hn : GoodComp n) (hanc : AncDirs mu ml ds) :
+    Mem.parentOk (fillDirs mu (chain [] ds)) (renderC (ds ++ [n])) = true :=
+  parentOk_fillDirs_gen hroot.root hds hn (chain_dirs_of_anc hanc)
+
+/-! ### what the upper-layer primitives keep -/
+
+theorem contains_insert_of_contains {m : FMap} {k k' : Str} {v : Entry}
+    (h : m.contains k = true) : (m.insert k' v).contains k = true := by
+  unfold FMap.contains at *
+  rw [FMap.find?_insert]
+  split
+  · rfl
+  · exact h
+
+theorem contains_erase_ne {m : FMap} {k k' : Str} (hne : k ≠ k') :
+    (m.erase k').contains k = m.contains k := by
+  unfold FMap.contains
+  rw [FMap.find?_erase_ne _ _ _ hne]
+
+theorem Mem.createDir_keeps {m : FMap} {k : Str} (d : Str) (h : m.contains k = true) :
+    (Mem.createDir m d).2.contains k = true := by
+  unfold Mem.createDir
+  split
+  · split
+    · exact h
+    · exact contains_insert_of_contains h
+  · exact h
+  · exact h
+
+theorem mkdirs_keeps {m : FMap} {k : Str} (ds : List Str) (h : m.contains k = true) :
+    (Mem.mkdirs m ds).2.contains k = true := by
+  induction ds generalizing m with
+  | nil => exact h
+  | cons d rest ih =>
+    unfold Mem.mkdirs
+    have := Mem.createDir_keeps d h
+    cases hc : Mem.createDir m d with
+    | mk r m' =>
+      rw [hc] at this
+      cases r with
+      | ok a => exact ih this
+      | err e pth => cases e <;> first | exact ih this | exact this
+      | panic => exact this
+
+theorem Mem.createFile_keeps {m : FMap} {k : Str} (p : Str) (h : m.contains k = true) :
+    (Mem.createFile m p).2.contains k = true := by
+  unfold Mem.createFile
+  split
+  · split
+    · split
+      · exact h
+      · exact contains_insert_of_contains h
+    · exact contains_insert_of_contains h
+  · exact h
+  · exact h
+
+theorem memPublish_keeps {m : FMap} {k : Str} (p : Str) (buf : Bytes) (h : m.contains k = true) :
+    (memPublish m p buf).contains k = true := by
+  unfold memPublish; exact contains_insert_of_contains h
+
+theorem Mem.pTouch_keeps {m : FMap} {k : Str} (p : Str) (h : m.contains k = true) :
+    (Mem.pTouch m p).2.contains k = true := by
+  unfold Mem.pTouch
+  split
+  · have := Mem.createFile_keeps p h
+    cases hc : Mem.createFile m p with
+    | mk r m' =>
+      rw [hc] at this
+      cases r with
+      | ok a => exact memPublish_keeps _ _ this
+      | err e pth => exact this
+      | panic => exact this
+  · exact h
+
+theorem Mem.pOpenW_keeps {m : FMap} {k : Str} (p : Str) (h : m.contains k = true) :
+    (Mem.pOpenW m p).2.contains k = true := by
+  unfold Mem.pOpenW
+  split
+  · exact Mem.createFile_keeps p h
+  · exact h
+
+theorem Mem.pCreateDir_keeps {m : FMap} {k : Str} (p : Str) (h : m.contains k = true) :
+    (Mem.pCreateDir m p).2.contains k = true := by
+  unfold Mem.pCreateDir
+  split
+  · exact Mem.createDir_keeps p h
+  · exact h
+
+theorem Mem.pRemoveFile_keeps {m : FMap} {k : Str} (p : Str) (hne : k ≠ p)
+    (h : m.contains k = true) : (Mem.pRemoveFile m p).2.contains k = true := by
+  unfold Mem.pRemoveFile Mem.removeFile
+  split
+  · exact h
+  · split
+    · exact h
+    · show (m.erase p).contains k = true
+      rw [contains_erase_ne hne]; exact h
+
+theorem Mem.pRemoveDir_keeps {m : FMap} {k : Str} (p : Str) (hne : k ≠ p)
+    (h : m.contains k = true) : (Mem.pRemoveDir m p).2.contains k = true := by
+  unfold Mem.pRemoveDir Mem.removeDir
+  split
+  · split
+    · exact h
+    · split
+      · show (m.erase p).contains k = true
+        rw [contains_erase_ne hne]; exact h
+      · exact h
+  · exact h
+  · exact h
+
+theorem andThen_keeps {α β} {k : Str} (x : Res α × FMap) (f : α → FMap → Res β × FMap)
+    (hx : x.2.contains k = true) (hf : ∀ a m, m.contains k = true → (f a m).2.contains k = true) :
+    (andThen x f).2.contains k = true := by
+  obtain ⟨r, m⟩ := x
+  cases r with
+  | ok a => exact hf a m hx
+  | err e pth => exact hx
+  | panic => exact hx
+
+theorem pEnsure_keeps {mu ml : FMap} {k : Str} (ds : List Str) (h : mu.contains k = true) :
+    (pEnsure mu ml ds).2.contains k = true := by
+  unfold pEnsure
+  split
+  · exact mkdirs_keeps _ h
+  · exact h
+
+theorem pClear_keeps {mu : FMap} {k : Str} (q : Str) (hne : k ≠ marker q)
+    (h : mu.contains k = true) : (pClear mu q).2.contains k = true := by
+  unfold pClear
+  split
+  · exact Mem.pRemoveFile_keeps _ hne h
+  · exact h
+
+/-- `clearWhiteout q` touches nothing but `marker q` -/
+theorem pClear_frame (mu : FMap) (q k : Str) (hne : k ≠ marker q) :
+    (pClear mu q).2.find? k = mu.find? k := by
+  unfold pClear
+  split
+  · unfold Mem.pRemoveFile Mem.removeFile
+    split
+    · rfl
+    · split
+      · rfl
+      · exact FMap.find?_erase_ne _ _ _ hne
+  · rfl
+
+theorem pAddWhiteout_keeps {mu : FMap} {k : Str} (cs : List Str) (h : mu.contains k = true) :
+    (pAddWhiteout mu cs).2.contains k = true := by
+  unfold pAddWhiteout
+  exact andThen_keeps _ _ (mkdirs_keeps _ h) (fun _ m hm => Mem.pTouch_keeps _ hm)
+
+/-- `create_dir(q)` keeps every key of the upper layer except `marker q` -/
+theorem pCreateDir_keeps {mu ml : FMap} {k : Str} (cs : List Str) (hne : k ≠ marker (renderC cs))
+    (h : mu.contains k = true) : (pCreateDir mu ml cs).2.contains k = true := by
+  unfold pCreateDir
+  apply andThen_keeps _ _ (pEnsure_keeps _ h)
+  intro _ m hm
+  split
+  · exact hm
+  · exact andThen_keeps _ _ (Mem.pCreateDir_keeps _ hm) (fun _ m2 hm2 => pClear_keeps _ hne hm2)
+
+/-- `create_file(q)` keeps every key of the upper layer except `marker q` -/
+theorem pCreateFile_keeps {mu ml : FMap} {k : Str} (cs : List Str) (hne : k ≠ marker (renderC cs))
+    (h : mu.contains k = true) : (pCreateFile mu ml cs).2.contains k = true := by
+  unfold pCreateFile
+  apply andThen_keeps _ _ (pEnsure_keeps _ h)
+  intro _ m hm
+  apply andThen_keeps _ _ hm
+  intro _ _ _
+  exact andThen_keeps _ _ (Mem.pOpenW_keeps _ hm) (fun _ m2 hm2 => pClear_keeps _ hne hm2)
+
+/-- `remove_file(q)` keeps every key of the upper layer except `q` -/
+theorem pRemoveFile_keeps {mu ml : FMap} {k : Str} (cs : List Str) (hne : k ≠ renderC cs)
+    (h : mu.contains k = true) : (pRemoveFile mu ml cs).2.contains k = true := by
+  unfold pRemoveFile
+  split
+  · exact h
+  · apply andThen_keeps
+    · split
+      · exact Mem.pRemoveFile_keeps _ hne h
+      · exact h
+    · intro _ m hm; exact pAddWhiteout_keeps _ hm
+
+/-- `remove_dir(q)` keeps every key of the upper layer except `q` -/
+theorem pRemoveDir_keeps {mu ml : FMap} {k : Str} (cs : List Str) (hne : k ≠ renderC cs)
+    (h : mu.contains k = true) : (pRemoveDir mu ml cs).2.contains k = true := by
+  unfold pRemoveDir
+  split
+  · exact h
+  · split
+    · split
+      · exact h
+      · apply andThen_keeps
+        · split
+          · exact Mem.pRemoveDir_keeps _ hne h
+          · exact h
+        · intro _ m hm; exact pAddWhiteout_keeps _ hm
+    · exact h
+    · exact h
+
+/-! ### the marker written by `remove_file` / `remove_dir` -/
+
+theorem Mem.pTouch_ok {m m' : FMap} {k : Str} (h : Mem.pTouch m k = (.ok (), m')) :
+    ∃ e, m'.find? k = some e ∧ e.ftype = .file ∧ e.content = [] := by
+  unfold Mem.pTouch at h
+  split at h
+  · cases hc : Mem.createFile m k with
+    | mk r m'' =>
+      rw [hc] at h
+      cases r with
+      | ok a =>
+        simp only [Prod.mk.injEq, true_and] at h
+        subst h
+        exact find?_memPublish_self _ _ _
+      | err e pth => simp [Res.withPath] at h
+      | panic => simp at h
+  · simp at h
+
+theorem andThen_ok {α β} {x : Res α × FMap} {f : α → FMap → Res β × FMap} {b : β} {m' : FMap}
+    (h : andThen x f = (.ok b, m')) : ∃ a m, x = (.ok a, m) ∧ f a m = (.ok b, m') := by
+  obtain ⟨r, m⟩ := x
+  cases r with
+  | ok a => exact ⟨a, m, rfl, h⟩
+  | err e pth => simp [andThen] at h
+  | panic => simp [andThen] at h
+
+theorem pAddWhiteout_ok {mu m' : FMap} {cs : List Str} (h : pAddWhiteout mu cs = (.ok (), m')) :
+    ∃ e, m'.find? (marker (renderC cs)) = some e ∧ e.ftype = .file ∧ e.content = [] := by
+  unfold pAddWhiteout at h
+  obtain ⟨_, m1, _, h2⟩ := andThen_ok h
+  exact Mem.pTouch_ok h2
+
+theorem pRemoveFile_ok {mu ml m' : FMap} {cs : List Str}
+    (h : pRemoveFile mu ml cs = (.ok (), m')) :
+    ∃ e, m'.find? (marker (renderC cs)) = some e ∧ e.ftype = .file ∧ e.content = [] := by
+  unfold pRemoveFile at h
+  split at h
+  · simp at h
+  · obtain ⟨_, m1, _, h2⟩ := andThen_ok h
+    exact pAddWhiteout_ok h2
+
+theorem pRemoveDir_ok {mu ml m' : FMap} {cs : List Str}
+    (h : pRemoveDir mu ml cs = (.ok (), m')) :
+    ∃ e, m'.find? (marker (renderC cs)) = some e ∧ e.ftype = .file ∧ e.content = [] := by
+  unfold pRemoveDir at h
+  split at h
+  · simp at h
+  · split at h
+    · split at h
+      · simp at h
+      · obtain ⟨_, m1, _, h2⟩ := andThen_ok h
+        exact pAddWhiteout_ok h2
+    · simp at h
+    · simp at h
 
 end Vfs
